@@ -168,12 +168,12 @@ def encSeg (s : Nat × List Nat) : Bytes := [s.1 % 256, s.2.length % 256] ++ s.2
 
 theorem asPathToSegs_spec (bs : Bytes) (h : segsOk bs = true) (hb : AllB bs) :
     ∃ segs, asPathToSegs bs = .ok segs ∧ segs.flatMap encSeg = bs ∧
-      ∀ s ∈ segs, (1 ≤ s.1 ∧ s.1 ≤ 4) ∧ s.2.length ≤ 255 := by
+      ∀ s ∈ segs, (1 ≤ s.1 ∧ s.1 ≤ 4) ∧ 1 ≤ s.2.length ∧ s.2.length ≤ 255 := by
   fun_induction segsOk bs with
   | case1 => exact ⟨[], by simp [asPathToSegs], rfl, by simp⟩
   | case2 => simp at h
   | case3 t l rest hc ih =>
-      obtain ⟨ht1, ht4, hl⟩ := hc
+      obtain ⟨ht1, ht4, hl0, hl⟩ := hc
       have hrest : AllB rest := hb.tail.tail
       have hl256 : l < 256 := hb.tail.head
       have ht256 : t < 256 := hb.head
@@ -224,11 +224,12 @@ theorem flatMap_beN_allB (k : Nat) (ns : List Nat) : AllB (ns.flatMap (beN k)) :
   exact beN_lt k n b hn
 
 theorem segsOk_enc (segs : List (Nat × List Nat))
-    (h : ∀ s ∈ segs, (1 ≤ s.1 ∧ s.1 ≤ 4) ∧ s.2.length ≤ 255) : segsOk (segs.flatMap encSeg) = true := by
+    (h : ∀ s ∈ segs, (1 ≤ s.1 ∧ s.1 ≤ 4) ∧ 1 ≤ s.2.length ∧ s.2.length ≤ 255) :
+    segsOk (segs.flatMap encSeg) = true := by
   induction segs with
   | nil => simp [segsOk]
   | cons s tl ih =>
-      obtain ⟨⟨h1, h4⟩, hl⟩ := h s (by simp)
+      obtain ⟨⟨h1, h4⟩, hl1, hl⟩ := h s (by simp)
       have ht : s.1 % 256 = s.1 := Nat.mod_eq_of_lt (by omega)
       have hlen : s.2.length % 256 = s.2.length := Nat.mod_eq_of_lt (by omega)
       simp only [List.flatMap_cons, encSeg, ht, hlen, List.cons_append, List.nil_append, List.append_assoc]
@@ -236,7 +237,8 @@ theorem segsOk_enc (segs : List (Nat × List Nat))
       have hp : (s.2.flatMap (beN 4)).length = s.2.length * 4 := flatMap_beN4_length _
       have hle : s.2.length * 4 ≤ (s.2.flatMap (beN 4) ++ tl.flatMap encSeg).length := by
         rw [List.length_append, hp]; omega
-      simp only [h1, h4, hle, and_self, if_true]
+      have hne : s.2.length ≠ 0 := by omega
+      simp only [h1, h4, hle, hne, ne_eq, not_false_eq_true, and_self, if_true]
       rw [← hp, List.drop_left]
       exact ih (fun s hs => h s (List.mem_cons_of_mem _ hs))
 
@@ -386,7 +388,8 @@ theorem triples_flatMap (n : Nat) (bs : Bytes) (h : n * 12 ≤ bs.length) (hb : 
 def flagsCanon (a : Attribute) : Prop := ∀ f, canonicalFlags a.code = some f → a.flags = f
 
 /-- `attr_from_api (attr_to_api a) = Ok(a)` for the code with repairs `fx` -/
-def RT (fx : Fixes) (a : Attribute) : Prop := ∃ x, toApi fx a = .ok x ∧ fromApi fx x = .ok a
+def RT (fx : Fixes) (a : Attribute) : Prop :=
+  ∃ x, toApi fx a = .ok x ∧ x.strict = true ∧ fromApi0 fx x = .ok a
 
 theorem any_false_of_forall {α} (l : List α) (p : α → Bool) (h : ∀ x ∈ l, p x = false) : l.any p = false := by
   simp only [List.any_eq_false]
@@ -394,8 +397,12 @@ theorem any_false_of_forall {α} (l : List α) (p : α → Bool) (h : ∀ x ∈ 
 
 theorem specBytes_allB {bs : Bytes} (h : Spec.isBytes bs = true) : AllB bs := by
   intro b hb
-  simp only [Spec.isBytes, List.all_eq_true, decide_eq_true_eq] at h
-  exact h b hb
+  simp only [Spec.isBytes, Bool.and_eq_true, List.all_eq_true, decide_eq_true_eq] at h
+  exact h.1 b hb
+
+theorem specBytes_len {bs : Bytes} (h : Spec.isBytes bs = true) : bs.length ≤ 65508 := by
+  simp only [Spec.isBytes, Bool.and_eq_true, List.all_eq_true, decide_eq_true_eq] at h
+  exact h.2
 
 theorem rt_val (code flags v : Nat) (hcode : code = 1 ∨ code = 4 ∨ code = 5 ∨ code = 9)
     (hwf : WF ⟨code, flags, .val v⟩) (hc : flagsCanon ⟨code, flags, .val v⟩) :
@@ -404,18 +411,18 @@ theorem rt_val (code flags v : Nat) (hcode : code = 1 ∨ code = 4 ∨ code = 5 
   · have hf : flags = 0x40 := hc 0x40 (by simp [canonicalFlags])
     subst hf
     simp [WF, wfClause, classOf, valClause] at hwf
-    refine ⟨.origin v, by simp [toApi, Attribute.value], ?_⟩
-    simp [fromApi, current, newWithValue, canonicalFlags]; omega
+    refine ⟨.origin v, by simp [toApi, Attribute.value], by simp [ApiAttr.strict], ?_⟩
+    simp [fromApi0, current, newWithValue, canonicalFlags]; omega
   · have hf : flags = 0x80 := hc 0x80 (by simp [canonicalFlags])
     subst hf
-    exact ⟨.med v, by simp [toApi, Attribute.value], by simp [fromApi, newWithValue, canonicalFlags]⟩
+    exact ⟨.med v, by simp [toApi, Attribute.value], by simp [ApiAttr.strict], by simp [fromApi0, newWithValue, canonicalFlags]⟩
   · have hf : flags = 0x40 := hc 0x40 (by simp [canonicalFlags])
     subst hf
-    exact ⟨.localPref v, by simp [toApi, Attribute.value], by simp [fromApi, newWithValue, canonicalFlags]⟩
+    exact ⟨.localPref v, by simp [toApi, Attribute.value], by simp [ApiAttr.strict], by simp [fromApi0, newWithValue, canonicalFlags]⟩
   · have hf : flags = 0x80 := hc 0x80 (by simp [canonicalFlags])
     subst hf
-    exact ⟨.originatorId (.ip4 v), by simp [toApi, Attribute.value],
-      by simp [fromApi, AStr.parse4, newWithValue, canonicalFlags]⟩
+    exact ⟨.originatorId (.ip4 v), by simp [toApi, Attribute.value], by simp [ApiAttr.strict],
+      by simp [fromApi0, AStr.parse4, newWithValue, canonicalFlags]⟩
 
 theorem rt_aspath (flags : Nat) (b : Bytes) (hwf : WF ⟨2, flags, .bin b⟩)
     (hc : flagsCanon ⟨2, flags, .bin b⟩) : RT current ⟨2, flags, .bin b⟩ := by
@@ -425,13 +432,18 @@ theorem rt_aspath (flags : Nat) (b : Bytes) (hwf : WF ⟨2, flags, .bin b⟩)
   obtain ⟨_, hbytes, hseg⟩ := hwf
   rw [segments_eq] at hseg
   obtain ⟨segs, h1, h2, h3⟩ := asPathToSegs_spec b hseg (specBytes_allB hbytes)
-  refine ⟨.asPath segs, by simp [toApi, Attribute.binary, h1], ?_⟩
+  have hstrict : (ApiAttr.asPath segs).strict = true := by
+    simp only [ApiAttr.strict, List.all_eq_true, decide_eq_true_eq]
+    intro s hs
+    have := (h3 s hs).2.1
+    omega
+  refine ⟨.asPath segs, by simp [toApi, Attribute.binary, h1], hstrict, ?_⟩
   have hany : segs.any (fun s => !(decide (1 ≤ s.1 ∧ s.1 ≤ 4)) || decide (s.2.length > 255)) = false := by
     apply any_false_of_forall
     intro s hs
-    obtain ⟨⟨a1, a4⟩, al⟩ := h3 s hs
+    obtain ⟨⟨a1, a4⟩, al1, al⟩ := h3 s hs
     simp [a1, a4]; omega
-  simp only [fromApi, current, hany]
+  simp only [fromApi0, current, hany]
   rw [show (segs.flatMap fun s => [s.1 % 256, s.2.length % 256] ++ s.2.flatMap (beN 4)) = b from h2]
   simp [newWithBin, canonicalFlags]
 
@@ -442,7 +454,7 @@ theorem rt_atomic (flags : Nat) (b : Bytes) (hwf : WF ⟨6, flags, .bin b⟩)
   simp [WF, wfClause, classOf, binClause] at hwf
   obtain ⟨_, _, hlen⟩ := hwf
   subst hlen
-  exact ⟨.atomicAggregate, by simp [toApi], by simp [fromApi, newWithBin, canonicalFlags]⟩
+  exact ⟨.atomicAggregate, by simp [toApi], by simp [ApiAttr.strict], by simp [fromApi0, newWithBin, canonicalFlags]⟩
 
 theorem rt_aggregator (flags : Nat) (b : Bytes) (hwf : WF ⟨7, flags, .bin b⟩)
     (hc : flagsCanon ⟨7, flags, .bin b⟩) : RT current ⟨7, flags, .bin b⟩ := by
@@ -451,12 +463,12 @@ theorem rt_aggregator (flags : Nat) (b : Bytes) (hwf : WF ⟨7, flags, .bin b⟩
   simp [WF, wfClause, classOf, binClause] at hwf
   obtain ⟨_, hbytes, hlen⟩ := hwf
   have hb := specBytes_allB hbytes
-  refine ⟨.aggregator (ofBe (b.take 4)) (.ip4 (ofBe (b.drop 4))), by simp [toApi, Attribute.binary, hlen], ?_⟩
+  refine ⟨.aggregator (ofBe (b.take 4)) (.ip4 (ofBe (b.drop 4))), by simp [toApi, Attribute.binary, hlen], by simp [ApiAttr.strict], ?_⟩
   have e1 : beN 4 (ofBe (b.take 4)) = b.take 4 :=
     beN_ofBe' 4 _ (by simp only [List.length_take]; omega) (hb.take _)
   have e2 : beN 4 (ofBe (b.drop 4)) = b.drop 4 :=
     beN_ofBe' 4 _ (by simp only [List.length_drop]; omega) (hb.drop _)
-  simp [fromApi, AStr.parse4, e1, e2, newWithBin, canonicalFlags]
+  simp [fromApi0, AStr.parse4, e1, e2, newWithBin, canonicalFlags]
 
 theorem rt_u32list (code flags : Nat) (b : Bytes) (hcode : code = 8 ∨ code = 10)
     (hwf : WF ⟨code, flags, .bin b⟩) (hc : flagsCanon ⟨code, flags, .bin b⟩) :
@@ -467,23 +479,23 @@ theorem rt_u32list (code flags : Nat) (b : Bytes) (hcode : code = 8 ∨ code = 1
     simp [WF, wfClause, classOf, binClause] at hwf
     obtain ⟨_, hbytes, hlen⟩ := hwf
     have hb := specBytes_allB hbytes
-    refine ⟨.communities (u32s (b.length / 4) b), by simp [toApi, Attribute.binary], ?_⟩
+    refine ⟨.communities (u32s (b.length / 4) b), by simp [toApi, Attribute.binary], by simp [ApiAttr.strict], ?_⟩
     have h4 : b.length / 4 * 4 = b.length := by omega
     have := u32s_flatMap (b.length / 4) b (by omega) hb
     rw [h4, List.take_length] at this
-    simp [fromApi, this, newWithBin, canonicalFlags]
+    simp [fromApi0, this, newWithBin, canonicalFlags]
   · have hf : flags = 0x80 := hc 0x80 (by simp [canonicalFlags])
     subst hf
     simp [WF, wfClause, classOf, binClause] at hwf
     obtain ⟨_, hbytes, hlen⟩ := hwf
     have hb := specBytes_allB hbytes
-    refine ⟨.clusterList ((u32s (b.length / 4) b).map .ip4), by simp [toApi, Attribute.binary], ?_⟩
+    refine ⟨.clusterList ((u32s (b.length / 4) b).map .ip4), by simp [toApi, Attribute.binary], by simp [ApiAttr.strict], ?_⟩
     have h4 : b.length / 4 * 4 = b.length := by omega
     have := u32s_flatMap (b.length / 4) b (by omega) hb
     rw [h4, List.take_length] at this
     have hm : ((u32s (b.length / 4) b).map AStr.ip4).mapM AStr.parse4 = some (u32s (b.length / 4) b) :=
       mapM_map_some _ _ _ (fun c _ => rfl)
-    simp [fromApi, hm, this, newWithBin, canonicalFlags]
+    simp [fromApi0, hm, this, newWithBin, canonicalFlags]
 
 theorem rt_large (flags : Nat) (b : Bytes) (hwf : WF ⟨32, flags, .bin b⟩)
     (hc : flagsCanon ⟨32, flags, .bin b⟩) : RT current ⟨32, flags, .bin b⟩ := by
@@ -492,11 +504,11 @@ theorem rt_large (flags : Nat) (b : Bytes) (hwf : WF ⟨32, flags, .bin b⟩)
   simp [WF, wfClause, classOf, binClause] at hwf
   obtain ⟨_, hbytes, hlen⟩ := hwf
   have hb := specBytes_allB hbytes
-  refine ⟨.largeCommunities (triples (b.length / 12) b), by simp [toApi, Attribute.binary], ?_⟩
+  refine ⟨.largeCommunities (triples (b.length / 12) b), by simp [toApi, Attribute.binary], by simp [ApiAttr.strict], ?_⟩
   have h12 : b.length / 12 * 12 = b.length := by omega
   have := triples_flatMap (b.length / 12) b (by omega) hb
   rw [h12, List.take_length] at this
-  simp only [fromApi]
+  simp only [fromApi0]
   rw [this]
   simp [newWithBin, canonicalFlags]
 
@@ -509,21 +521,41 @@ theorem writeExtcom_show (c : Bytes) (hlen : c.length = 8) :
   · match c, hlen with
     | ty :: rest, hlen => simp [writeExtcom, hlen]
 
+theorem readExtcom_strict (c : Bytes) (h : c.length = 8) : (readExtcom c).strict = true := by
+  match c, h with
+  | [t, s, b2, b3, b4, b5, b6, b7], _ =>
+      simp only [readExtcom]
+      repeat' split
+      all_goals (simp [ExtCom.strict] <;> omega)
+
+theorem showExtcom_strict (c : Bytes) (h : c.length = 8) : (showExtcom current c).strict = true := by
+  unfold showExtcom
+  simp only [current, if_true]
+  split
+  · exact readExtcom_strict c h
+  · match c, h with
+    | ty :: rest, _ => simp [ExtCom.strict]
+
 theorem rt_extcom (flags : Nat) (b : Bytes) (hwf : WF ⟨16, flags, .bin b⟩)
     (hc : flagsCanon ⟨16, flags, .bin b⟩) : RT current ⟨16, flags, .bin b⟩ := by
   have hf : flags = 0xC0 := hc 0xC0 (by simp [canonicalFlags])
   subst hf
   simp [WF, wfClause, classOf, binClause] at hwf
   obtain ⟨_, hbytes, hlen⟩ := hwf
-  refine ⟨.extCommunities ((chunksN 8 (b.length / 8) b).map (showExtcom current)),
-    by simp [toApi, Attribute.binary], ?_⟩
   have h8 : b.length / 8 * 8 = b.length := by omega
+  have hstrict : (ApiAttr.extCommunities ((chunksN 8 (b.length / 8) b).map (showExtcom current))).strict
+      = true := by
+    simp only [ApiAttr.strict, List.all_eq_true, List.mem_map]
+    rintro e ⟨c, hcm, rfl⟩
+    exact showExtcom_strict c (chunksN_length 8 _ b (by omega) c hcm)
+  refine ⟨.extCommunities ((chunksN 8 (b.length / 8) b).map (showExtcom current)),
+    by simp [toApi, Attribute.binary], hstrict, ?_⟩
   have hm : ((chunksN 8 (b.length / 8) b).map (showExtcom current)).mapM writeExtcom
       = some (chunksN 8 (b.length / 8) b) :=
     mapM_map_some _ _ _ (fun c hcm => writeExtcom_show c (chunksN_length 8 _ b (by omega) c hcm))
   have hfl := chunksN_flatten 8 (b.length / 8) b
   rw [h8, List.take_length] at hfl
-  simp [fromApi, hm, hfl, newWithBin, canonicalFlags]
+  simp [fromApi0, hm, hfl, newWithBin, canonicalFlags]
 
 /-- codes that reach the last (`Unknown`) arm of `attr_to_api` and are stored by the decoder -/
 def rawCode (code : Nat) : Prop :=
@@ -538,13 +570,14 @@ theorem rt_known_raw (code flags : Nat) (d : Data) (hcode : code = 14 ∨ code =
   | val v => rcases hcode with rfl | rfl | rfl <;> simp [WF, wfClause, classOf, valClause] at hwf
   | raw b => rcases hcode with rfl | rfl | rfl <;> simp [WF, wfClause, classOf] at hwf
   | bin b =>
-      refine ⟨.unknown 0x80 code b, ?_, ?_⟩
+      refine ⟨.unknown 0x80 code b, ?_, ?_, ?_⟩
       · rcases hcode with rfl | rfl | rfl <;> simp [toApi, Attribute.binary]
+      · rcases hcode with rfl | rfl | rfl <;> simp [ApiAttr.strict, canonicalFlags]
       · rcases hcode with rfl | rfl | rfl
-        · simp [fromApi, current, canonicalFlags, typedCode]
-        · simp [fromApi, current, canonicalFlags, typedCode]
+        · simp [fromApi0, current, canonicalFlags, typedCode]
+        · simp [fromApi0, current, canonicalFlags, typedCode]
         · simp [WF, wfClause, classOf, binClause, aigpTlvs_eq] at hwf
-          simp [fromApi, current, canonicalFlags, typedCode, hwf.2.2]
+          simp [fromApi0, current, canonicalFlags, typedCode, hwf.2.2]
 
 theorem rt_unknown (code flags : Nat) (d : Data) (hr : rawCode code) (h14 : code ≠ 14) (h15 : code ≠ 15)
     (h26 : code ≠ 26) (hwf : WF ⟨code, flags, d⟩) : RT current ⟨code, flags, d⟩ := by
@@ -559,10 +592,11 @@ theorem rt_unknown (code flags : Nat) (d : Data) (hr : rawCode code) (h14 : code
   | raw b =>
       simp only [need_eq_none, Bool.and_eq_true, beq_iff_eq, and_true] at hd
       obtain ⟨⟨ho, ht⟩, _⟩ := hd
-      refine ⟨.unknown flags code b, by simp [toApi, Attribute.binary, *], ?_⟩
       have hmod : code % 256 = code := Nat.mod_eq_of_lt hcode
+      refine ⟨.unknown flags code b, by simp [toApi, Attribute.binary, *],
+        by simp [ApiAttr.strict, hmod, hcf], ?_⟩
       have hnot : ¬ (code > 255 ∨ flags > 255) := by omega
-      simp [fromApi, current, hmod, hnot, hcf, ho, ht]
+      simp [fromApi0, current, hmod, hnot, hcf, ho, ht]
 
 /-- what the decoder stores: never NEXT_HOP / MP_* (consumed by the UPDATE parser) nor AS4_* (discarded
     on a four-octet-AS session) -/
@@ -605,18 +639,18 @@ theorem roundtrip_attr (a : Attribute) (hwf : WF a) (hm : modelledCode a.code = 
 
 /-! ## the wire decoder establishes `WF` -/
 
-theorem allB_specBytes {bs : Bytes} (h : AllB bs) : Spec.isBytes bs = true := by
-  simp only [Spec.isBytes, List.all_eq_true, decide_eq_true_eq]
-  exact h
+theorem allB_specBytes {bs : Bytes} (h : AllB bs) (hl : bs.length ≤ 65508) : Spec.isBytes bs = true := by
+  simp only [Spec.isBytes, Bool.and_eq_true, List.all_eq_true, decide_eq_true_eq]
+  exact ⟨h, hl⟩
 
 def dataClause (code : Nat) : Data → Option String
   | .raw _ => some "recognised-attribute-opaque"
   | .val v => valClause code v
   | .bin bs => binClause code bs
 
-theorem decodeData_wf (code : Nat) (bs : Bytes) (d : Data) (hb : AllB bs)
+theorem decodeData_wf (code : Nat) (bs : Bytes) (d : Data) (hb : AllB bs) (hlen : bs.length ≤ 65508)
     (h : decodeData code bs = some d) : dataClause code d = none := by
-  have hbs := allB_specBytes hb
+  have hbs := allB_specBytes hb hlen
   by_cases h1 : code = 1
   · subst h1
     simp only [decodeData, if_true] at h
@@ -653,7 +687,7 @@ theorem decodeData_wf (code : Nat) (bs : Bytes) (d : Data) (hb : AllB bs)
       simp only [Option.some.injEq] at h; subst h
       have hb' : AllB (beN 4 (ofBe (List.take 2 bs)) ++ List.drop 2 bs) :=
         AllB.append (beN_lt 4 _) (hb.drop _)
-      simp [dataClause, binClause, allB_specBytes hb', beN_length, h6']
+      simp [dataClause, binClause, allB_specBytes hb' (by simp [beN_length]; omega), beN_length, h6']
     · rename_i h6'
       obtain ⟨hs, h⟩ := h
       simp only [Option.some.injEq] at h; subst h
@@ -739,7 +773,7 @@ theorem canon_none_class (code : Nat) (h : canonicalFlags code = none) : classOf
 /-- **decode_wf**: whatever the UPDATE parser stores satisfies the structural invariants `WF`,
     carries the wire flags verbatim, and is never NEXT_HOP / MP_* / AS4_*. -/
 theorem decode_wf (code flags : Nat) (bs : Bytes) (a : Attribute) (hc : code < 256) (hf : flags < 256)
-    (hb : AllB bs) (h : decodeAttr code flags bs = .stored a) :
+    (hb : AllB bs) (hlen : bs.length ≤ 65508) (h : decodeAttr code flags bs = .stored a) :
     WF a ∧ a.code = code ∧ a.flags = flags ∧
       (code ≠ 3 ∧ code ≠ 14 ∧ code ≠ 15 ∧ code ≠ 17 ∧ code ≠ 18) := by
   unfold decodeAttr at h
@@ -761,7 +795,7 @@ theorem decode_wf (code flags : Nat) (bs : Bytes) (a : Attribute) (hc : code < 2
             simp only [WF]
             rw [wfClause_known _ cls hcl]
             simp only [need_eq_none, Bool.and_eq_true, decide_eq_true_eq]
-            exact ⟨⟨hc, hf⟩, hfl flags (by simpa using hbits), decodeData_wf code bs d hb hd⟩
+            exact ⟨⟨hc, hf⟩, hfl flags (by simpa using hbits), decodeData_wf code bs d hb hlen hd⟩
       · split at h <;> simp at h
   · rename_i hcan
     have hcl := canon_none_class code hcan
@@ -773,7 +807,7 @@ theorem decode_wf (code flags : Nat) (bs : Bytes) (a : Attribute) (hc : code < 2
         simp only [Decoded.stored.injEq] at h; subst h
         refine ⟨?_, rfl, rfl, ?_⟩
         · simp only [WF, wfClause, hcl, need_eq_none, Bool.and_eq_true, decide_eq_true_eq, beq_iff_eq]
-          refine ⟨⟨hc, hf⟩, ⟨⟨?_, ?_⟩, allB_specBytes hb⟩, trivial⟩ <;> omega
+          refine ⟨⟨hc, hf⟩, ⟨⟨?_, ?_⟩, allB_specBytes hb hlen⟩, trivial⟩ <;> omega
         · simp only [canonicalFlags] at hcan
           split at hcan
           · simp at hcan
@@ -960,12 +994,13 @@ theorem flatten_len8 (cs : List Bytes) (h : ∀ c ∈ cs, c.length = 8 ∧ AllB 
 /-- **from_api_wf**: whatever `attr_from_api` accepts satisfies the invariants of wire-decoded values,
     and carries the canonical flags of its code. -/
 theorem from_api_wf (x : ApiAttr) (a : Attribute) (hr : x.inRange = true)
-    (h : fromApi current x = .ok a) : WF a ∧ flagsCanon a := by
+    (h : fromApi0 current x = .ok a) (hsz : a.valueLen ≤ maxAttrValue) (hst : x.strict = true) :
+    WF a ∧ flagsCanon a := by
   cases x with
-  | missing => simp [fromApi] at h
-  | other => simp [fromApi] at h
+  | missing => simp [fromApi0] at h
+  | other => simp [fromApi0] at h
   | origin o =>
-      simp only [fromApi, current] at h
+      simp only [fromApi0, current] at h
       split at h
       · simp at h
       · rename_i ho
@@ -973,44 +1008,44 @@ theorem from_api_wf (x : ApiAttr) (a : Attribute) (hr : x.inRange = true)
         simp [newWithValue, canonicalFlags] at h; subst h
         exact wf_canon 1 0x40 _ (by simp [canonicalFlags]) (by simp [dataClause, valClause]; omega)
   | med m =>
-      simp [fromApi, newWithValue, canonicalFlags] at h; subst h
+      simp [fromApi0, newWithValue, canonicalFlags] at h; subst h
       simp only [ApiAttr.inRange, u32, decide_eq_true_eq] at hr
       exact wf_canon 4 0x80 _ (by simp [canonicalFlags]) (by simp [dataClause, valClause]; omega)
   | localPref m =>
-      simp [fromApi, newWithValue, canonicalFlags] at h; subst h
+      simp [fromApi0, newWithValue, canonicalFlags] at h; subst h
       simp only [ApiAttr.inRange, u32, decide_eq_true_eq] at hr
       exact wf_canon 5 0x40 _ (by simp [canonicalFlags]) (by simp [dataClause, valClause]; omega)
   | atomicAggregate =>
-      simp [fromApi, newWithBin, canonicalFlags] at h; subst h
+      simp [fromApi0, newWithBin, canonicalFlags] at h; subst h
       exact wf_canon 6 0x40 _ (by simp [canonicalFlags]) (by simp [dataClause, binClause, Spec.isBytes])
   | nextHop s =>
-      simp only [fromApi, current] at h
+      simp only [fromApi0, current] at h
       cases s with
       | ip4 n =>
           simp [AStr.parse4, newWithBin, canonicalFlags] at h; subst h
           exact wf_canon 3 0x40 _ (by simp [canonicalFlags])
-            (binClause_c3 _ (allB_specBytes (beN_lt 4 n)) (Or.inl (beN_length 4 n)))
+            (binClause_c3 _ (allB_specBytes (beN_lt 4 n) hsz) (Or.inl (beN_length 4 n)))
       | ip6 n =>
           simp [AStr.parse4, AStr.parse6, newWithBin, canonicalFlags] at h; subst h
           exact wf_canon 3 0x40 _ (by simp [canonicalFlags])
-            (binClause_c3 _ (allB_specBytes (beN_lt 16 n)) (Or.inr (beN_length 16 n)))
+            (binClause_c3 _ (allB_specBytes (beN_lt 16 n) hsz) (Or.inr (beN_length 16 n)))
       | bad k => simp [AStr.parse4, AStr.parse6] at h
   | aggregator asn addr =>
-      simp only [fromApi] at h
+      simp only [fromApi0] at h
       cases addr with
       | ip4 n =>
           simp [AStr.parse4, newWithBin, canonicalFlags] at h; subst h
           exact wf_canon 7 0xC0 _ (by simp [canonicalFlags])
-            (binClause_c7 _ (allB_specBytes (AllB.append (beN_lt 4 asn) (beN_lt 4 n)))
+            (binClause_c7 _ (allB_specBytes (AllB.append (beN_lt 4 asn) (beN_lt 4 n)) hsz)
               (by simp [beN_length]))
       | ip6 n => simp [AStr.parse4] at h
       | bad k => simp [AStr.parse4] at h
   | communities l =>
-      simp [fromApi, newWithBin, canonicalFlags] at h; subst h
+      simp [fromApi0, newWithBin, canonicalFlags] at h; subst h
       exact wf_canon 8 0xC0 _ (by simp [canonicalFlags])
-        (binClause_c8 _ (allB_specBytes (flatMap_beN_allB 4 l)) (flatMap_len4 l))
+        (binClause_c8 _ (allB_specBytes (flatMap_beN_allB 4 l) hsz) (flatMap_len4 l))
   | originatorId s =>
-      simp only [fromApi] at h
+      simp only [fromApi0] at h
       cases s with
       | ip4 n =>
           simp [AStr.parse4, newWithValue, canonicalFlags] at h; subst h
@@ -1019,15 +1054,15 @@ theorem from_api_wf (x : ApiAttr) (a : Attribute) (hr : x.inRange = true)
       | ip6 n => simp [AStr.parse4] at h
       | bad k => simp [AStr.parse4] at h
   | clusterList ids =>
-      simp only [fromApi] at h
+      simp only [fromApi0] at h
       split at h
       · simp at h
       · rename_i l hl
         simp [newWithBin, canonicalFlags] at h; subst h
         exact wf_canon 10 0x80 _ (by simp [canonicalFlags])
-          (binClause_c10 _ (allB_specBytes (flatMap_beN_allB 4 l)) (flatMap_len4 l))
+          (binClause_c10 _ (allB_specBytes (flatMap_beN_allB 4 l) hsz) (flatMap_len4 l))
   | largeCommunities l =>
-      simp only [fromApi, okOrErr_eq, newWithBin, canonicalFlags] at h
+      simp only [fromApi0, okOrErr_eq, newWithBin, canonicalFlags] at h
       simp at h; subst h
       have hb : AllB (l.flatMap fun t => beN 4 t.1 ++ beN 4 t.2.1 ++ beN 4 t.2.2) := by
         intro b hb
@@ -1039,9 +1074,9 @@ theorem from_api_wf (x : ApiAttr) (a : Attribute) (hr : x.inRange = true)
         simp only [List.append_assoc]
       rw [e]
       exact wf_canon 32 0xC0 _ (by simp [canonicalFlags])
-        (binClause_c32 _ (allB_specBytes hb) (flatMap3_len l))
+        (binClause_c32 _ (allB_specBytes hb hsz) (flatMap3_len l))
   | extCommunities l =>
-      simp only [fromApi] at h
+      simp only [fromApi0] at h
       split at h
       · simp at h
       · rename_i cs hcs
@@ -1051,18 +1086,20 @@ theorem from_api_wf (x : ApiAttr) (a : Attribute) (hr : x.inRange = true)
           mapM_some_forall writeExtcom _ l cs hcs (fun e he c hc => writeExtcom_len e c (hr e he) hc)
         obtain ⟨h8, hb⟩ := flatten_len8 cs hall
         exact wf_canon 16 0xC0 _ (by simp [canonicalFlags])
-          (binClause_c16 _ (allB_specBytes hb) h8)
+          (binClause_c16 _ (allB_specBytes hb hsz) h8)
   | asPath segs =>
-      simp only [fromApi, current] at h
+      simp only [fromApi0, current] at h
       split at h
       · simp at h
       · rename_i hany
         simp [newWithBin, canonicalFlags] at h; subst h
-        have hsegs : ∀ s ∈ segs, (1 ≤ s.1 ∧ s.1 ≤ 4) ∧ s.2.length ≤ 255 := by
+        have hsegs : ∀ s ∈ segs, (1 ≤ s.1 ∧ s.1 ≤ 4) ∧ 1 ≤ s.2.length ∧ s.2.length ≤ 255 := by
           intro s hs
           simp only [true_and, List.any_eq_true, not_exists, not_and, Bool.or_eq_true,
             Bool.not_eq_true', decide_eq_false_iff_not, decide_eq_true_eq, not_or] at hany
           have := hany s hs
+          simp only [ApiAttr.strict, List.all_eq_true, decide_eq_true_eq] at hst
+          have := hst s hs
           omega
         have hok := segsOk_enc segs hsegs
         have hb := encSeg_allB segs
@@ -1071,9 +1108,9 @@ theorem from_api_wf (x : ApiAttr) (a : Attribute) (hr : x.inRange = true)
             have e : (segs.flatMap fun s => s.1 % 256 :: s.2.length % 256 :: s.2.flatMap (beN 4))
                 = segs.flatMap encSeg := rfl
             rw [e]
-            exact binClause_c2 _ (allB_specBytes hb) hok)
+            exact binClause_c2 _ (allB_specBytes hb hsz) hok)
   | unknown f t v =>
-      simp only [fromApi, current, if_true] at h
+      simp only [fromApi0, current, if_true] at h
       split at h
       · simp at h
       · rename_i hlt
@@ -1092,6 +1129,7 @@ theorem from_api_wf (x : ApiAttr) (a : Attribute) (hr : x.inRange = true)
             · simp at h
             · rename_i haigp
               simp only [Out.ok.injEq] at h; subst h
+              have hv := hv hsz
               exact wf_canon t fl _ hcan (by
                 have a1 : ¬ (t = 1 ∨ t = 4 ∨ t = 5 ∨ t = 9) := by omega
                 have a2 : ¬ (t = 8 ∨ t = 10) := by omega
@@ -1107,6 +1145,7 @@ theorem from_api_wf (x : ApiAttr) (a : Attribute) (hr : x.inRange = true)
           split at h
           · rename_i hbits
             simp only [Out.ok.injEq] at h; subst h
+            have hv := hv hsz
             have hcl := canon_none_class t hcan
             refine ⟨?_, ?_⟩
             · simp only [WF, wfClause, hcl, need_eq_none, Bool.and_eq_true, decide_eq_true_eq, beq_iff_eq]
@@ -1220,8 +1259,8 @@ theorem asPathPrepend_ok (a : Attribute) (asn : Nat) (h : WF a) (hc : a.code = 2
       · exact ⟨_, rfl, t :: (l + 1) :: (beN 4 asn ++ rest), rfl⟩
       · exact ⟨_, rfl, 2 :: 1 :: (beN 4 asn ++ t :: l :: rest), rfl⟩
 
-theorem encode2Use_ok (a : Attribute) (h : WF a) : encode2Use a = .ok () := by
-  unfold encode2Use
+theorem encode2_ok (a : Attribute) (h : WF a) : ∃ r, encode2 a = .ok r := by
+  unfold encode2
   by_cases h2 : a.code = 2
   · obtain ⟨b, hb, hs⟩ := wf_aspath a h h2
     obtain ⟨d, hd⟩ := downgrade2_ok b hs
@@ -1229,23 +1268,37 @@ theorem encode2Use_ok (a : Attribute) (h : WF a) : encode2Use a = .ok () := by
     obtain ⟨s, hs'⟩ := stripConfed_ok b hs
     rw [if_pos h2]
     simp only [Attribute.binary, hb, unwrapO_some, Out.bind_ok', hd, hw]
-    have e1 : ∃ x, encodeAttr { a with data := .bin d, flags := 0x40 } = .ok x := by
+    have e1 : ∃ x, encodeAttr { a with data := .bin d } = .ok x := by
       simp [encodeAttr, h2, Attribute.binary]
     obtain ⟨x, hx⟩ := e1
     simp only [hx, Out.bind_ok']
     cases w with
-    | false => simp
+    | false => exact ⟨x, by simp⟩
     | true =>
         simp only [if_true, hs', Out.bind_ok']
         have e2 : ∃ y, encodeAttr { code := 17, flags := 0xC0, data := .bin s } = .ok y := by
           simp [encodeAttr, Attribute.binary]
         obtain ⟨y, hy⟩ := e2
-        simp [hy]
+        exact ⟨x ++ y, by simp [hy]⟩
   · by_cases h7 : a.code = 7
     · obtain ⟨b, hb, hl⟩ := wf_aggregator a h h7
-      simp [h2, h7, Attribute.binary, hb, hl]
-    · obtain ⟨b, hb⟩ := encodeAttr_ok a h
-      simp [h2, h7, hb]
+      rw [if_neg h2, if_pos h7]
+      simp only [Attribute.binary, hb, unwrapO_some, Out.bind_ok']
+      have hlt : ¬ b.length < 8 := by omega
+      rw [if_neg hlt]
+      have e1 : ∀ bin, ∃ x, encodeAttr { a with data := .bin bin } = .ok x := by
+        intro bin; simp [encodeAttr, h7, Attribute.binary]
+      obtain ⟨x, hx⟩ := e1 (beN 2 (if ofBe (b.take 4) > 65535 then 23456 else ofBe (b.take 4)) ++ (b.drop 4).take 4)
+      simp only [hx, Out.bind_ok']
+      split
+      · have e2 : ∃ y, encodeAttr { code := 18, flags := 0xC0, data := .bin b } = .ok y := by
+          simp [encodeAttr, Attribute.binary]
+        obtain ⟨y, hy⟩ := e2
+        exact ⟨x ++ y, by simp [hy]⟩
+      · exact ⟨x, by simp⟩
+    · rw [if_neg h2, if_neg h7]
+      exact encodeAttr_ok a h
+
 theorem wf_originIgp : WF originIgp := by
   simp [WF, wfClause, originIgp, classOf, flagsOk, valClause]
 
@@ -1304,31 +1357,47 @@ theorem polUse_ok (L : List Attribute) (h : ∀ x ∈ L, WF x) : ∃ b, polUse L
       obtain ⟨a', ha', b, hb⟩ := asPathPrepend_ok x 65000 (h x hm) hcx
       exact ⟨b, by simp [hn, ha', hb]⟩
 
-theorem runAll_ok {α β} (f : α → Out β) (L : List α) (h : ∀ x ∈ L, ∃ b, f x = .ok b) :
-    runAll f L = .ok () := by
+theorem sumAll_ok {α} (f : α → Out Bytes) (L : List α) (h : ∀ x ∈ L, ∃ b, f x = .ok b) :
+    ∃ n, sumAll f L = .ok n := by
   induction L with
-  | nil => rfl
+  | nil => exact ⟨0, rfl⟩
   | cons x xs ih =>
       obtain ⟨b, hb⟩ := h x (by simp)
-      simp only [runAll, hb]
-      exact ih (fun y hy => h y (List.mem_cons_of_mem _ hy))
+      obtain ⟨n, hn⟩ := ih (fun y hy => h y (List.mem_cons_of_mem _ hy))
+      exact ⟨b.length + n, by simp [sumAll, hb, hn]⟩
+
+theorem msgUse_no_panic (f : Attribute → Out Bytes) (L : List Attribute) (h : ∀ x ∈ L, ∃ b, f x = .ok b) :
+    msgUse f L ≠ .panic := by
+  obtain ⟨n, hn⟩ := sumAll_ok f L h
+  unfold msgUse
+  rw [hn]
+  simp only
+  split <;> simp
 
 /-- **wf_safe**: a well-formed attribute stored in a path never makes best-path comparison, policy
     evaluation, `as_path_length`/`as_path_origin` or either UPDATE encoder panic. -/
+@[simp] theorem isPanic_ok {α} (a : α) : (Out.ok a).isPanic = false := rfl
+@[simp] theorem isPanic_err {α} : (Out.err : Out α).isPanic = false := rfl
+@[simp] theorem isPanic_panic {α} : (Out.panic : Out α).isPanic = true := rfl
+
+theorem isPanic_false_of_ne {α} (o : Out α) (h : o ≠ .panic) : o.isPanic = false := by
+  cases o <;> simp [Out.isPanic] at h ⊢
+
 theorem wf_safe (a : Attribute) (h : WF a) : (useOf a).noPanic = true := by
   have hall := pathAttrs_wf a h
   obtain ⟨e, he⟩ := encodeAttr_ok a h
   obtain ⟨p, hp⟩ := polUse_ok _ hall
   have hc := cmpUse_ok _ hall
-  have h4 := runAll_ok encodeAttr _ (fun x hx => encodeAttr_ok x (hall x hx))
-  have h2 := runAll_ok encode2Use _ (fun x hx => ⟨(), encode2Use_ok x (hall x hx)⟩)
+  have h4 := isPanic_false_of_ne _
+    (msgUse_no_panic encodeAttr _ (fun x hx => encodeAttr_ok x (hall x hx)))
+  have h2 := isPanic_false_of_ne _
+    (msgUse_no_panic encode2 _ (fun x hx => encode2_ok x (hall x hx)))
   unfold useOf Use.noPanic
-  simp only [he, hp, hc, h4, h2, Out.isPanic]
   by_cases h2c : a.code = 2
   · obtain ⟨n, hn⟩ := asPathLength_ok a h h2c
     obtain ⟨r, hr⟩ := asPathOrigin_ok a h h2c
-    simp [h2c, hn, hr, Out.isPanic]
-  · simp [h2c]
+    simp [he, hp, hc, h4, h2, h2c, hn, hr]
+  · simp [he, hp, hc, h4, h2, h2c]
 
 /-! ## NLRI -/
 
@@ -1343,34 +1412,61 @@ theorem map_mod_id (ls : List Nat) (h : ∀ l ∈ ls, l < 1048576) : ls.map (· 
       rw [Nat.mod_eq_of_lt (h x (by simp)), ih (fun l hl => h l (List.mem_cons_of_mem _ hl))]
 
 /-- **roundtrip_nlri** -/
-theorem roundtrip_nlri (n : Nlri) (h : WFN n) : netFromApi current (nlriToApi n) = .ok n := by
+theorem roundtrip_nlri (n : Nlri) (h : WFN n) : netFromApi0 current (nlriToApi n) = .ok n := by
   cases n with
   | v4 a m =>
-      simp [WFN, nlriClause] at h
-      simp [nlriToApi, netFromApi]; omega
+      simp [WFN, nlriClause, prefixClause] at h
+      simp [nlriToApi, netFromApi0]; omega
   | v6 a m =>
-      simp [WFN, nlriClause] at h
-      simp [nlriToApi, netFromApi]; omega
+      simp [WFN, nlriClause, prefixClause] at h
+      simp [nlriToApi, netFromApi0]; omega
   | lv4 ls a m =>
-      simp [WFN, nlriClause, labelsOk] at h
-      obtain ⟨h1, h2, ⟨h3, h4⟩, h5⟩ := h
-      simp only [nlriToApi, netFromApi, map_mod_id ls h4, current]
+      simp [WFN, nlriClause, prefixClause, labelsOk] at h
+      obtain ⟨h1, h2, hz, ⟨h3, h4⟩, h5⟩ := h
+      simp only [nlriToApi, netFromApi0, map_mod_id ls h4, current]
       rw [if_neg (by intro hc; obtain ⟨_, hc⟩ := hc; omega), Nat.mod_eq_of_lt (by omega)]
   | lv6 ls a m =>
-      simp [WFN, nlriClause, labelsOk] at h
-      obtain ⟨h1, h2, ⟨h3, h4⟩, h5⟩ := h
-      simp only [nlriToApi, netFromApi, map_mod_id ls h4, current]
+      simp [WFN, nlriClause, prefixClause, labelsOk] at h
+      obtain ⟨h1, h2, hz, ⟨h3, h4⟩, h5⟩ := h
+      simp only [nlriToApi, netFromApi0, map_mod_id ls h4, current]
       rw [if_neg (by intro hc; obtain ⟨_, hc⟩ := hc; omega), Nat.mod_eq_of_lt (by omega)]
   | vpn4 ls rd a m =>
-      simp [WFN, nlriClause, labelsOk] at h
-      obtain ⟨h1, h2, ⟨⟨h3, h4⟩, h5⟩, h6⟩ := h
-      simp only [nlriToApi, netFromApi, map_mod_id ls h4, current, rd_roundtrip rd h6]
+      simp [WFN, nlriClause, prefixClause, labelsOk] at h
+      obtain ⟨h1, h2, hz, ⟨⟨h3, h4⟩, h5⟩, h6⟩ := h
+      simp only [nlriToApi, netFromApi0, map_mod_id ls h4, current, rd_roundtrip rd h6]
       rw [if_neg (by intro hc; obtain ⟨_, hc⟩ := hc; omega), Nat.mod_eq_of_lt (by omega)]
   | vpn6 ls rd a m =>
-      simp [WFN, nlriClause, labelsOk] at h
-      obtain ⟨h1, h2, ⟨⟨h3, h4⟩, h5⟩, h6⟩ := h
-      simp only [nlriToApi, netFromApi, map_mod_id ls h4, current, rd_roundtrip rd h6]
+      simp [WFN, nlriClause, prefixClause, labelsOk] at h
+      obtain ⟨h1, h2, hz, ⟨⟨h3, h4⟩, h5⟩, h6⟩ := h
+      simp only [nlriToApi, netFromApi0, map_mod_id ls h4, current, rd_roundtrip rd h6]
       rw [if_neg (by intro hc; obtain ⟨_, hc⟩ := hc; omega), Nat.mod_eq_of_lt (by omega)]
+
+/-- the listed form of a well-formed prefix is an exact message -/
+theorem nlriToApi_strict (n : Nlri) (h : WFN n) : (nlriToApi n).strict = true := by
+  cases n with
+  | v4 a m =>
+      simp [WFN, nlriClause, prefixClause, hostOctetsZero] at h
+      simp [nlriToApi, ApiNlri.strict, hostBitsClear, h.2.2]
+  | v6 a m =>
+      simp [WFN, nlriClause, prefixClause, hostOctetsZero] at h
+      simp [nlriToApi, ApiNlri.strict, hostBitsClear, h.2.2]
+  | lv4 ls a m =>
+      simp [WFN, nlriClause, prefixClause, hostOctetsZero, labelsOk] at h
+      obtain ⟨h1, h2, hz, ⟨h3, h4⟩, h5⟩ := h
+      simp [nlriToApi, ApiNlri.strict, hostBitsClear, hz]; exact h4
+  | lv6 ls a m =>
+      simp [WFN, nlriClause, prefixClause, hostOctetsZero, labelsOk] at h
+      obtain ⟨h1, h2, hz, ⟨h3, h4⟩, h5⟩ := h
+      simp [nlriToApi, ApiNlri.strict, hostBitsClear, hz]; exact h4
+  | vpn4 ls rd a m =>
+      simp [WFN, nlriClause, prefixClause, hostOctetsZero, labelsOk] at h
+      obtain ⟨h1, h2, hz, ⟨⟨h3, h4⟩, h5⟩, h6⟩ := h
+      simp [nlriToApi, ApiNlri.strict, hostBitsClear, hz]; exact h4
+  | vpn6 ls rd a m =>
+      simp [WFN, nlriClause, prefixClause, hostOctetsZero, labelsOk] at h
+      obtain ⟨h1, h2, hz, ⟨⟨h3, h4⟩, h5⟩, h6⟩ := h
+      simp [nlriToApi, ApiNlri.strict, hostBitsClear, hz]; exact h4
+
 theorem pow4 : (256 : Nat) ^ 4 = 2 ^ 32 := by decide
 theorem pow16 : (256 : Nat) ^ 16 = 2 ^ 128 := by decide
 
@@ -1387,11 +1483,33 @@ theorem padAddr_lt (w : Nat) (bs : Bytes) (hb : AllB bs) (hl : bs.length ≤ w) 
   rw [hlen] at h
   exact h
 
+theorem ofBe_zeros (k : Nat) : ofBe (List.replicate k 0) = 0 := by
+  induction k with
+  | zero => rfl
+  | succ k ih =>
+      rw [List.replicate_succ, show (0 :: List.replicate k 0) = [0] ++ List.replicate k 0 from rfl,
+        ofBe_append, ih]
+      simp [ofBe]
+
+theorem pow256 (k : Nat) : 2 ^ (k * 8) = 256 ^ k := by
+  rw [Nat.mul_comm, Nat.pow_mul]
+
+theorem padAddr_zero (w : Nat) (bs : Bytes) : padAddr w bs % 2 ^ ((w - bs.length) * 8) = 0 := by
+  unfold padAddr
+  rw [ofBe_append, ofBe_zeros, List.length_replicate, pow256]
+  simp
+
+/-- once its three conditions hold, `prefixClause` is transparent -/
+theorem prefixClause_ok (w a m : Nat) (rest : Option String) (h1 : m ≤ w * 8) (h2 : a < 2 ^ (w * 8))
+    (hz : hostOctetsZero w a m = true) : prefixClause w a m rest = rest := by
+  simp [prefixClause, need, h1, h2, hz]
+
 theorem ceil8_le (w bits : Nat) (h : bits ≤ w * 8) : ceil8 bits ≤ w := by
   unfold ceil8; omega
 
 theorem decPrefix_ok (w bits : Nat) (bs : Bytes) (a : Nat) (rest : Bytes) (hb : AllB bs)
-    (h : decPrefix w bits bs = .ok (a, rest)) : bits ≤ w * 8 ∧ a < 256 ^ w ∧ AllB rest := by
+    (h : decPrefix w bits bs = .ok (a, rest)) :
+    bits ≤ w * 8 ∧ a < 2 ^ (w * 8) ∧ hostOctetsZero w a bits = true ∧ AllB rest := by
   unfold decPrefix at h
   split at h
   · simp at h
@@ -1399,9 +1517,15 @@ theorem decPrefix_ok (w bits : Nat) (bs : Bytes) (a : Nat) (rest : Bytes) (hb : 
     simp only [Out.ok.injEq, Prod.mk.injEq] at h
     obtain ⟨rfl, rfl⟩ := h
     have hle : bits ≤ w * 8 := by omega
-    refine ⟨hle, padAddr_lt w _ (hb.take _) ?_, hb.drop _⟩
-    have := ceil8_le w bits hle
-    simp only [List.length_take]; omega
+    have hc8 := ceil8_le w bits hle
+    have htl : (bs.take (ceil8 bits)).length = ceil8 bits := by
+      simp only [List.length_take]; omega
+    refine ⟨hle, ?_, ?_, hb.drop _⟩
+    · rw [pow256]; exact padAddr_lt w _ (hb.take _) (by omega)
+    · have := padAddr_zero w (bs.take (ceil8 bits))
+      rw [htl] at this
+      simp only [hostOctetsZero, decide_eq_true_eq]
+      exact this
 
 theorem label_lt (a b c : Nat) (hb : AllB [a, b, c]) : ofBe [a, b, c] / 16 < 1048576 := by
   have := ofBe_lt [a, b, c] hb
@@ -1480,18 +1604,9 @@ theorem decRd_ok (bs : Bytes) (rd : Rd) (hb : AllB bs) (h : decRd bs = some rd) 
             exact ⟨h4 a b c d (by simp) (by simp) (by simp) (by simp), h2 e f (by simp) (by simp)⟩
           · simp at h
 
-/-- label stacks short enough that the `u8` bit arithmetic of labeled.rs does not wrap
-    (`(stack.encoded_len() * 8) as u8`; vpn.rs no longer wraps since the C03 repair dd9ba2a) -/
-def noWrap : Nlri → Prop
-  | .v4 .. => True
-  | .v6 .. => True
-  | .lv4 ls _ _ => ls.length * 24 < 256
-  | .lv6 ls _ _ => ls.length * 24 < 256
-  | .vpn4 .. => True
-  | .vpn6 .. => True
-
 theorem decodePlain_ok (w : Nat) (bs : Bytes) (a m : Nat) (rest : Bytes) (hb : AllB bs)
-    (h : decodePlain w bs = .ok (a, m, rest)) : m ≤ w * 8 ∧ a < 256 ^ w ∧ AllB rest := by
+    (h : decodePlain w bs = .ok (a, m, rest)) :
+    m ≤ w * 8 ∧ a < 2 ^ (w * 8) ∧ hostOctetsZero w a m = true ∧ AllB rest := by
   unfold decodePlain at h
   match bs, hb, h with
   | bits :: tl, hb, h =>
@@ -1506,8 +1621,9 @@ theorem decodePlain_ok (w : Nat) (bs : Bytes) (a m : Nat) (rest : Bytes) (hb : A
       | panic => simp [hp] at h
 
 theorem decodeLabeled_ok (w : Nat) (bs : Bytes) (ls : List Nat) (a m : Nat) (rest : Bytes) (hb : AllB bs)
-    (h : decodeLabeled w bs = .ok (ls, a, m, rest)) (hw : ls.length * 24 < 256) :
-    m ≤ w * 8 ∧ a < 256 ^ w ∧ labelsOk ls = true ∧ ls.length * 24 + m ≤ 255 ∧ AllB rest := by
+    (h : decodeLabeled w bs = .ok (ls, a, m, rest)) :
+    m ≤ w * 8 ∧ a < 2 ^ (w * 8) ∧ hostOctetsZero w a m = true ∧ labelsOk ls = true ∧
+      ls.length * 24 + m ≤ 255 ∧ AllB rest := by
   unfold decodeLabeled at h
   match bs, hb, h with
   | total :: tl, hb, h =>
@@ -1523,24 +1639,22 @@ theorem decodeLabeled_ok (w : Nat) (bs : Bytes) (ls : List Nat) (a m : Nat) (res
             · simp at h
             · rename_i hge
               obtain ⟨hl, hr⟩ := decLabels_ok tl ls' rest' hb.tail hd
-              cases hp : decPrefix w (total - ls'.length * 24 % 256) rest' with
+              cases hp : decPrefix w (total - ls'.length * 24) rest' with
               | ok r2 =>
                   obtain ⟨a', rest''⟩ := r2
                   simp only [hp, Out.ok.injEq, Prod.mk.injEq] at h
                   obtain ⟨rfl, rfl, rfl, rfl⟩ := h
-                  obtain ⟨p1, p2, p3⟩ := decPrefix_ok w _ rest' _ _ hr hp
+                  obtain ⟨p1, p2, pz, p3⟩ := decPrefix_ok w _ rest' _ _ hr hp
                   have ht : total < 256 := hb.head
-                  have hmod : ls'.length * 24 % 256 = ls'.length * 24 := Nat.mod_eq_of_lt hw
-                  refine ⟨p1, p2, hl, ?_, p3⟩
-                  rw [hmod] at hge ⊢
+                  refine ⟨p1, p2, pz, hl, ?_, p3⟩
                   omega
               | err => simp [hp] at h
               | panic => simp [hp] at h
 
 theorem decodeVpn_ok (w : Nat) (bs : Bytes) (ls : List Nat) (rd : Rd) (a m : Nat) (rest : Bytes)
     (hb : AllB bs) (h : decodeVpn w bs = .ok (ls, rd, a, m, rest)) :
-    m ≤ w * 8 ∧ a < 256 ^ w ∧ labelsOk ls = true ∧ ls.length * 24 + 64 + m ≤ 255 ∧ rdOk rd = true ∧
-      AllB rest := by
+    m ≤ w * 8 ∧ a < 2 ^ (w * 8) ∧ hostOctetsZero w a m = true ∧ labelsOk ls = true ∧
+      ls.length * 24 + 64 + m ≤ 255 ∧ rdOk rd = true ∧ AllB rest := by
   unfold decodeVpn at h
   match bs, hb, h with
   | total :: tl, hb, h =>
@@ -1567,17 +1681,16 @@ theorem decodeVpn_ok (w : Nat) (bs : Bytes) (ls : List Nat) (rd : Rd) (a m : Nat
                         obtain ⟨a', rest''⟩ := r2
                         simp only [hp, Out.ok.injEq, Prod.mk.injEq] at h
                         obtain ⟨rfl, rfl, rfl, rfl, rfl⟩ := h
-                        obtain ⟨p1, p2, p3⟩ := decPrefix_ok w _ _ _ _ (hr.drop _) hp
+                        obtain ⟨p1, p2, pz, p3⟩ := decPrefix_ok w _ _ _ _ (hr.drop _) hp
                         have ht : total < 256 := hb.head
-                        refine ⟨p1, p2, hl, ?_, decRd_ok _ _ (hr.take _) hrd, p3⟩
+                        refine ⟨p1, p2, pz, hl, ?_, decRd_ok _ _ (hr.take _) hrd, p3⟩
                         omega
                     | err => simp [hp] at h
                     | panic => simp [hp] at h
 
-/-- **decode_wf (NLRI)**: a prefix produced by the wire decoders satisfies `WFN`
-    (as long as the label stack does not wrap the one-octet bit count, S7). -/
+/-- **decode_wf (NLRI)**: a prefix produced by the wire decoders satisfies `WFN`. -/
 theorem decodeOne_wf (f : Fam) (bs : Bytes) (n : Nlri) (rest : Bytes) (hb : AllB bs)
-    (h : decodeOne f bs = .ok (n, rest)) (hw : noWrap n) : WFN n ∧ AllB rest := by
+    (h : decodeOne f bs = .ok (n, rest)) : WFN n ∧ AllB rest := by
   cases f with
   | v4 =>
       simp only [decodeOne] at h
@@ -1586,9 +1699,8 @@ theorem decodeOne_wf (f : Fam) (bs : Bytes) (n : Nlri) (rest : Bytes) (hb : AllB
           obtain ⟨a, m, rest'⟩ := r
           simp only [hd, Out.map_ok, Out.ok.injEq, Prod.mk.injEq] at h
           obtain ⟨rfl, rfl⟩ := h
-          obtain ⟨h1, h2, h3⟩ := decodePlain_ok 4 bs a m rest' hb hd
-          rw [pow4] at h2
-          exact ⟨by simp [WFN, nlriClause]; omega, h3⟩
+          obtain ⟨h1, h2, hz, h3⟩ := decodePlain_ok 4 bs a m rest' hb hd
+          exact ⟨by simp only [WFN, nlriClause]; exact prefixClause_ok 4 a m none h1 h2 hz, h3⟩
       | err => simp [hd, Out.map] at h
       | panic => simp [hd, Out.map] at h
   | v6 =>
@@ -1598,9 +1710,8 @@ theorem decodeOne_wf (f : Fam) (bs : Bytes) (n : Nlri) (rest : Bytes) (hb : AllB
           obtain ⟨a, m, rest'⟩ := r
           simp only [hd, Out.map_ok, Out.ok.injEq, Prod.mk.injEq] at h
           obtain ⟨rfl, rfl⟩ := h
-          obtain ⟨h1, h2, h3⟩ := decodePlain_ok 16 bs a m rest' hb hd
-          rw [pow16] at h2
-          exact ⟨by simp [WFN, nlriClause]; omega, h3⟩
+          obtain ⟨h1, h2, hz, h3⟩ := decodePlain_ok 16 bs a m rest' hb hd
+          exact ⟨by simp only [WFN, nlriClause]; exact prefixClause_ok 16 a m none h1 h2 hz, h3⟩
       | err => simp [hd, Out.map] at h
       | panic => simp [hd, Out.map] at h
   | lv4 =>
@@ -1610,9 +1721,11 @@ theorem decodeOne_wf (f : Fam) (bs : Bytes) (n : Nlri) (rest : Bytes) (hb : AllB
           obtain ⟨ls, a, m, rest'⟩ := r
           simp only [hd, Out.map_ok, Out.ok.injEq, Prod.mk.injEq] at h
           obtain ⟨rfl, rfl⟩ := h
-          obtain ⟨h1, h2, h3, h4, h5⟩ := decodeLabeled_ok 4 bs ls a m rest' hb hd hw
-          rw [pow4] at h2
-          exact ⟨by simp [WFN, nlriClause, h3]; omega, h5⟩
+          obtain ⟨h1, h2, hz, h3, h4, h5⟩ := decodeLabeled_ok 4 bs ls a m rest' hb hd
+          refine ⟨?_, h5⟩
+          simp only [WFN, nlriClause]
+          rw [prefixClause_ok 4 a m _ h1 h2 hz]
+          simp [h3, h4]
       | err => simp [hd, Out.map] at h
       | panic => simp [hd, Out.map] at h
   | lv6 =>
@@ -1622,9 +1735,11 @@ theorem decodeOne_wf (f : Fam) (bs : Bytes) (n : Nlri) (rest : Bytes) (hb : AllB
           obtain ⟨ls, a, m, rest'⟩ := r
           simp only [hd, Out.map_ok, Out.ok.injEq, Prod.mk.injEq] at h
           obtain ⟨rfl, rfl⟩ := h
-          obtain ⟨h1, h2, h3, h4, h5⟩ := decodeLabeled_ok 16 bs ls a m rest' hb hd hw
-          rw [pow16] at h2
-          exact ⟨by simp [WFN, nlriClause, h3]; omega, h5⟩
+          obtain ⟨h1, h2, hz, h3, h4, h5⟩ := decodeLabeled_ok 16 bs ls a m rest' hb hd
+          refine ⟨?_, h5⟩
+          simp only [WFN, nlriClause]
+          rw [prefixClause_ok 16 a m _ h1 h2 hz]
+          simp [h3, h4]
       | err => simp [hd, Out.map] at h
       | panic => simp [hd, Out.map] at h
   | vpn4 =>
@@ -1634,9 +1749,11 @@ theorem decodeOne_wf (f : Fam) (bs : Bytes) (n : Nlri) (rest : Bytes) (hb : AllB
           obtain ⟨ls, rd, a, m, rest'⟩ := r
           simp only [hd, Out.map_ok, Out.ok.injEq, Prod.mk.injEq] at h
           obtain ⟨rfl, rfl⟩ := h
-          obtain ⟨h1, h2, h3, h4, h5, h6⟩ := decodeVpn_ok 4 bs ls rd a m rest' hb hd
-          rw [pow4] at h2
-          exact ⟨by simp [WFN, nlriClause, h3, h5]; omega, h6⟩
+          obtain ⟨h1, h2, hz, h3, h4, h5, h6⟩ := decodeVpn_ok 4 bs ls rd a m rest' hb hd
+          refine ⟨?_, h6⟩
+          simp only [WFN, nlriClause]
+          rw [prefixClause_ok 4 a m _ h1 h2 hz]
+          simp [h3, h4, h5]
       | err => simp [hd, Out.map] at h
       | panic => simp [hd, Out.map] at h
   | vpn6 =>
@@ -1646,9 +1763,11 @@ theorem decodeOne_wf (f : Fam) (bs : Bytes) (n : Nlri) (rest : Bytes) (hb : AllB
           obtain ⟨ls, rd, a, m, rest'⟩ := r
           simp only [hd, Out.map_ok, Out.ok.injEq, Prod.mk.injEq] at h
           obtain ⟨rfl, rfl⟩ := h
-          obtain ⟨h1, h2, h3, h4, h5, h6⟩ := decodeVpn_ok 16 bs ls rd a m rest' hb hd
-          rw [pow16] at h2
-          exact ⟨by simp [WFN, nlriClause, h3, h5]; omega, h6⟩
+          obtain ⟨h1, h2, hz, h3, h4, h5, h6⟩ := decodeVpn_ok 16 bs ls rd a m rest' hb hd
+          refine ⟨?_, h6⟩
+          simp only [WFN, nlriClause]
+          rw [prefixClause_ok 16 a m _ h1 h2 hz]
+          simp [h3, h4, h5]
       | err => simp [hd, Out.map] at h
       | panic => simp [hd, Out.map] at h
 theorem rdFromApi_ok (r : ApiRd) (rd : Rd) (hr : r.inRange = true) (h : rdFromApi r = some rd) :
@@ -1689,58 +1808,71 @@ theorem labels_mod_ok (labels : List Nat) (h : (labels.map (· % 1048576)).lengt
   rcases List.mem_map.mp hx with ⟨y, _, rfl⟩
   exact Nat.mod_lt _ (by omega)
 
+theorem host_of_strict (w a m : Nat) (h : hostBitsClear w a m = true) : hostOctetsZero w a m = true := by
+  simpa [hostBitsClear, hostOctetsZero] using h
+
 /-- **from_api_wf (NLRI)**: whatever `net_from_api` accepts (modelled kinds) satisfies `WFN`. -/
-theorem nlri_from_api_wf (x : ApiNlri) (n : Nlri) (hr : x.inRange = true)
-    (h : netFromApi current x = .ok n) : WFN n := by
+theorem nlri_from_api_wf (x : ApiNlri) (n : Nlri) (hr : x.inRange = true) (hst : x.strict = true)
+    (h : netFromApi0 current x = .ok n) : WFN n := by
   cases x with
-  | missing => simp [netFromApi] at h
-  | other => simp [netFromApi] at h
+  | missing => simp [netFromApi0] at h
+  | other => simp [netFromApi0] at h
   | «prefix» s len =>
       cases s with
       | ip4 a =>
-          simp only [netFromApi] at h
+          simp only [netFromApi0] at h
           split at h
           · simp at h
-          · simp only [Out.ok.injEq] at h; subst h
+          · rename_i hc
+            simp only [Out.ok.injEq] at h; subst h
             simp only [ApiNlri.inRange, AStr.inRange, u32, Bool.and_eq_true, decide_eq_true_eq] at hr
-            simp [WFN, nlriClause]; omega
+            simp only [WFN, nlriClause]
+            exact prefixClause_ok 4 a len none (by omega) (by omega)
+              (host_of_strict 4 a len (by simpa [ApiNlri.strict] using hst))
       | ip6 a =>
-          simp only [netFromApi] at h
+          simp only [netFromApi0] at h
           split at h
           · simp at h
-          · simp only [Out.ok.injEq] at h; subst h
+          · rename_i hc
+            simp only [Out.ok.injEq] at h; subst h
             simp only [ApiNlri.inRange, AStr.inRange, u32, Bool.and_eq_true, decide_eq_true_eq] at hr
-            simp [WFN, nlriClause]; omega
-      | bad k => simp [netFromApi] at h
+            simp only [WFN, nlriClause]
+            exact prefixClause_ok 16 a len none (by omega) (by omega)
+              (host_of_strict 16 a len (by simpa [ApiNlri.strict] using hst))
+      | bad k => simp [netFromApi0] at h
   | labeled labels len s =>
       cases s with
-      | bad k => simp [netFromApi] at h
+      | bad k => simp [netFromApi0] at h
       | ip4 a =>
-          simp only [netFromApi, current, true_and] at h
+          simp only [netFromApi0, current, true_and] at h
           split at h
           · simp at h
           · rename_i hc
             simp only [Out.ok.injEq] at h; subst h
             simp only [ApiNlri.inRange, AStr.inRange, u32, Bool.and_eq_true, decide_eq_true_eq] at hr
+            simp only [ApiNlri.strict, Bool.and_eq_true] at hst
             have hm : len % 256 = len := Nat.mod_eq_of_lt (by omega)
             have hl := labels_mod_ok labels (by omega)
-            simp only [WFN, nlriClause, hm, hl, need_eq_none, Bool.and_eq_true, decide_eq_true_eq,
-              Bool.true_and, and_true]
+            simp only [WFN, nlriClause, hm]
+            rw [prefixClause_ok 4 a len _ (by omega) (by omega) (host_of_strict 4 a len hst.2)]
+            simp only [hl, need_eq_none, Bool.and_eq_true, decide_eq_true_eq, Bool.true_and, and_true]
             omega
       | ip6 a =>
-          simp only [netFromApi, current, true_and] at h
+          simp only [netFromApi0, current, true_and] at h
           split at h
           · simp at h
           · rename_i hc
             simp only [Out.ok.injEq] at h; subst h
             simp only [ApiNlri.inRange, AStr.inRange, u32, Bool.and_eq_true, decide_eq_true_eq] at hr
+            simp only [ApiNlri.strict, Bool.and_eq_true] at hst
             have hm : len % 256 = len := Nat.mod_eq_of_lt (by omega)
             have hl := labels_mod_ok labels (by omega)
-            simp only [WFN, nlriClause, hm, hl, need_eq_none, Bool.and_eq_true, decide_eq_true_eq,
-              Bool.true_and, and_true]
+            simp only [WFN, nlriClause, hm]
+            rw [prefixClause_ok 16 a len _ (by omega) (by omega) (host_of_strict 16 a len hst.2)]
+            simp only [hl, need_eq_none, Bool.and_eq_true, decide_eq_true_eq, Bool.true_and, and_true]
             omega
   | vpn labels rd len s =>
-      simp only [netFromApi] at h
+      simp only [netFromApi0] at h
       cases rd with
       | none => simp at h
       | some r =>
@@ -1761,10 +1893,13 @@ theorem nlri_from_api_wf (x : ApiNlri) (n : Nlri) (hr : x.inRange = true)
                     simp only [Out.ok.injEq] at h; subst h
                     have ha := hr.2
                     simp only [AStr.inRange, u32, decide_eq_true_eq] at ha
+                    simp only [ApiNlri.strict, Bool.and_eq_true] at hst
                     have hm : len % 256 = len := Nat.mod_eq_of_lt (by omega)
                     have hl := labels_mod_ok labels (by omega)
-                    simp only [WFN, nlriClause, hm, hl, hrdok, need_eq_none, Bool.and_eq_true,
-                      decide_eq_true_eq, Bool.true_and, and_true]
+                    simp only [WFN, nlriClause, hm]
+                    rw [prefixClause_ok 4 a len _ (by omega) (by omega) (host_of_strict 4 a len hst.2)]
+                    simp only [hl, hrdok, need_eq_none, Bool.and_eq_true, decide_eq_true_eq, Bool.true_and,
+                      and_true]
                     omega
               | ip6 a =>
                   simp only [current, true_and] at h
@@ -1774,49 +1909,55 @@ theorem nlri_from_api_wf (x : ApiNlri) (n : Nlri) (hr : x.inRange = true)
                     simp only [Out.ok.injEq] at h; subst h
                     have ha := hr.2
                     simp only [AStr.inRange, decide_eq_true_eq] at ha
+                    simp only [ApiNlri.strict, Bool.and_eq_true] at hst
                     have hm : len % 256 = len := Nat.mod_eq_of_lt (by omega)
                     have hl := labels_mod_ok labels (by omega)
-                    simp only [WFN, nlriClause, hm, hl, hrdok, need_eq_none, Bool.and_eq_true,
-                      decide_eq_true_eq, Bool.true_and, and_true]
+                    simp only [WFN, nlriClause, hm]
+                    rw [prefixClause_ok 16 a len _ (by omega) (by omega) (host_of_strict 16 a len hst.2)]
+                    simp only [hl, hrdok, need_eq_none, Bool.and_eq_true, decide_eq_true_eq, Bool.true_and,
+                      and_true]
                     omega
 
-/-- **wf_safe_encode (NLRI)**: `Nlri::encode` of a well-formed prefix does not panic. -/
-theorem nlri_encode_ok (n : Nlri) (h : WFN n) : ∃ b, encodeNlri n = .ok b := by
+theorem wfn_parts (w a m : Nat) (rest : Option String) (h : prefixClause w a m rest = none) :
+    m ≤ w * 8 ∧ rest = none := by
+  simp only [prefixClause, need_eq_none, decide_eq_true_eq] at h
+  exact ⟨h.1, h.2.2.2⟩
+
+/-- **wf_safe_encode (NLRI)**: `Nlri::encode` of a well-formed prefix does not panic and writes the prefix. -/
+theorem nlri_encode_ok (n : Nlri) (h : WFN n) : ∃ b, encodeNlri n = .ok b ∧ b ≠ [] := by
   cases n with
   | v4 a m =>
-      simp [WFN, nlriClause] at h
+      obtain ⟨h1, _⟩ := wfn_parts 4 a m none h
       have : ¬ ceil8 m > 4 := by unfold ceil8; omega
       simp [encodeNlri, encPrefix, this]
   | v6 a m =>
-      simp [WFN, nlriClause] at h
+      obtain ⟨h1, _⟩ := wfn_parts 16 a m none h
       have : ¬ ceil8 m > 16 := by unfold ceil8; omega
       simp [encodeNlri, encPrefix, this]
   | lv4 ls a m =>
-      simp [WFN, nlriClause] at h
+      obtain ⟨h1, h2⟩ := wfn_parts 4 a m _ h
+      simp only [need_eq_none, Bool.and_eq_true, decide_eq_true_eq] at h2
       have : ¬ ceil8 m > 4 := by unfold ceil8; omega
-      have h2 : ¬ (ls.length * 24 % 256 + m > 255) := by
-        have := Nat.mod_le (ls.length * 24) 256; omega
-      simp [encodeNlri, encPrefix, addU8, this, h2]
+      have h3 : ¬ ls.length * 24 + m > 255 := by omega
+      simp [encodeNlri, encPrefix, this, h3]
   | lv6 ls a m =>
-      simp [WFN, nlriClause] at h
+      obtain ⟨h1, h2⟩ := wfn_parts 16 a m _ h
+      simp only [need_eq_none, Bool.and_eq_true, decide_eq_true_eq] at h2
       have : ¬ ceil8 m > 16 := by unfold ceil8; omega
-      have h2 : ¬ (ls.length * 24 % 256 + m > 255) := by
-        have := Nat.mod_le (ls.length * 24) 256; omega
-      simp [encodeNlri, encPrefix, addU8, this, h2]
+      have h3 : ¬ ls.length * 24 + m > 255 := by omega
+      simp [encodeNlri, encPrefix, this, h3]
   | vpn4 ls rd a m =>
-      simp [WFN, nlriClause] at h
+      obtain ⟨h1, h2⟩ := wfn_parts 4 a m _ h
+      simp only [need_eq_none, Bool.and_eq_true, decide_eq_true_eq] at h2
       have : ¬ ceil8 m > 4 := by unfold ceil8; omega
-      have hle := Nat.mod_le (ls.length * 24) 256
-      have h2 : ¬ (ls.length * 24 % 256 + 64 > 255) := by omega
-      have h3 : ¬ (ls.length * 24 % 256 + 64 + m > 255) := by omega
-      simp [encodeNlri, encPrefix, addU8, this, h2, h3]
+      have h3 : ¬ ls.length * 24 + 64 + m > 255 := by omega
+      simp [encodeNlri, encPrefix, this, h3]
   | vpn6 ls rd a m =>
-      simp [WFN, nlriClause] at h
+      obtain ⟨h1, h2⟩ := wfn_parts 16 a m _ h
+      simp only [need_eq_none, Bool.and_eq_true, decide_eq_true_eq] at h2
       have : ¬ ceil8 m > 16 := by unfold ceil8; omega
-      have hle := Nat.mod_le (ls.length * 24) 256
-      have h2 : ¬ (ls.length * 24 % 256 + 64 > 255) := by omega
-      have h3 : ¬ (ls.length * 24 % 256 + 64 + m > 255) := by omega
-      simp [encodeNlri, encPrefix, addU8, this, h2, h3]
+      have h3 : ¬ ls.length * 24 + 64 + m > 255 := by omega
+      simp [encodeNlri, encPrefix, this, h3]
 
 /-! ## the reference checker accepts every run of the model -/
 
@@ -1833,10 +1974,76 @@ theorem crashed_none (u : Use) (h : u.noPanic = true) : crashed u = none := by
   rcases len with _ | (_ | _ | _) <;> rcases origin with _ | (_ | _ | _) <;>
     simp_all [Out.isPanic]
 
+/-! ### the exactness / size wrapper around the conversion -/
+
+theorem fromApi_ok (x : ApiAttr) (a : Attribute) (h : fromApi current x = .ok a) :
+    x.strict = true ∧ fromApi0 current x = .ok a ∧ a.valueLen ≤ maxAttrValue := by
+  unfold fromApi at h
+  split at h
+  · simp at h
+  · rename_i hs
+    have hst : x.strict = true := by
+      cases hx : x.strict with
+      | true => rfl
+      | false => exact absurd ⟨rfl, hx⟩ hs
+    cases h0 : fromApi0 current x with
+    | ok a' =>
+        simp only [h0] at h
+        split at h
+        · simp at h
+        · rename_i hsz
+          simp only [Out.ok.injEq] at h; subst h
+          refine ⟨hst, rfl, ?_⟩
+          have : ¬ (a'.valueLen > maxAttrValue) := fun hgt => hsz ⟨rfl, hgt⟩
+          omega
+    | err => simp [h0] at h
+    | panic => simp [h0] at h
+
+theorem fromApi_of (x : ApiAttr) (a : Attribute) (hst : x.strict = true) (h0 : fromApi0 current x = .ok a)
+    (hsz : a.valueLen ≤ maxAttrValue) : fromApi current x = .ok a := by
+  unfold fromApi
+  rw [if_neg (by simp [hst])]
+  simp only [h0]
+  rw [if_neg (by intro hc; have := hc.2; omega)]
+
+theorem wf_valueLen (a : Attribute) (h : WF a) : a.valueLen ≤ maxAttrValue := by
+  rcases wf_class a h with ⟨cls, _, hd⟩ | ⟨hcl, b, hb⟩
+  · cases hdat : a.data with
+    | val v => simp [Attribute.valueLen, hdat, maxAttrValue]
+    | raw b => rw [hdat] at hd; simp [dataClause] at hd
+    | bin b =>
+        rw [hdat] at hd
+        simp only [dataClause, binClause, need_eq_none] at hd
+        simpa [Attribute.valueLen, hdat, maxAttrValue] using specBytes_len hd.1
+  · simp only [WF, wfClause, hcl, need_eq_none, hb, Bool.and_eq_true] at h
+    simpa [Attribute.valueLen, hb, maxAttrValue] using specBytes_len h.2.1.2
+
+/-- the statement of the round trip on the real entry point -/
+def RTreal (a : Attribute) : Prop := ∃ x, toApi current a = .ok x ∧ fromApi current x = .ok a
+
+theorem rtreal_of_rt (a : Attribute) (hwf : WF a) (h : RT current a) : RTreal a := by
+  obtain ⟨x, h1, hst, h0⟩ := h
+  exact ⟨x, h1, fromApi_of x a hst h0 (wf_valueLen a hwf)⟩
+
+theorem netFromApi_ok (x : ApiNlri) (n : Nlri) (h : netFromApi current x = .ok n) :
+    x.strict = true ∧ netFromApi0 current x = .ok n := by
+  unfold netFromApi at h
+  split at h
+  · simp at h
+  · rename_i hs
+    refine ⟨?_, h⟩
+    cases hx : x.strict with
+    | true => rfl
+    | false => exact absurd ⟨rfl, hx⟩ hs
+
+theorem netFromApi_of (x : ApiNlri) (hst : x.strict = true) : netFromApi current x = netFromApi0 current x := by
+  unfold netFromApi
+  rw [if_neg (by simp [hst])]
+
 /-- a value that is well-formed, round-trips and is stored in the model's observation passes `checkAttr` -/
 theorem checkAttr_ok (stream : String) (a : Attribute) (hwf : WF a) (hrt : RT current a) :
     checkAttr stream (attrObs current a) = .ok := by
-  obtain ⟨x, hx1, hx2⟩ := hrt
+  obtain ⟨x, hx1, hx2⟩ := rtreal_of_rt a hwf hrt
   have hc := crashed_none (useOf a) (wf_safe a hwf)
   simp only [checkAttr, attrObs, hx1, hx2]
   simp only [WF] at hwf
@@ -1845,31 +2052,31 @@ theorem checkAttr_ok (stream : String) (a : Attribute) (hwf : WF a) (hrt : RT cu
 theorem rt_nexthop (b : Bytes) (hb : AllB b) (hl : b.length = 4 ∨ b.length = 16) :
     RT current ⟨3, 0x40, .bin b⟩ := by
   rcases hl with hl | hl
-  · refine ⟨.nextHop (.ip4 (ofBe (b.take 4))), by simp [toApi, Attribute.binary, hl], ?_⟩
+  · refine ⟨.nextHop (.ip4 (ofBe (b.take 4))), by simp [toApi, Attribute.binary, hl], by simp [ApiAttr.strict], ?_⟩
     have e : beN 4 (ofBe (b.take 4)) = b := by
       rw [List.take_of_length_le (by omega)]; exact beN_ofBe' 4 b hl hb
-    simp [fromApi, AStr.parse4, e, newWithBin, canonicalFlags]
-  · refine ⟨.nextHop (.ip6 (ofBe b)), by simp [toApi, Attribute.binary, hl], ?_⟩
+    simp [fromApi0, AStr.parse4, e, newWithBin, canonicalFlags]
+  · refine ⟨.nextHop (.ip6 (ofBe b)), by simp [toApi, Attribute.binary, hl], by simp [ApiAttr.strict], ?_⟩
     have e : beN 16 (ofBe b) = b := beN_ofBe' 16 b hl hb
-    simp [fromApi, AStr.parse4, AStr.parse6, e, newWithBin, canonicalFlags]
+    simp [fromApi0, AStr.parse4, AStr.parse6, e, newWithBin, canonicalFlags]
 
 /-- codes `attr_from_api` can produce, and the shape of an accepted NEXT_HOP -/
-theorem from_api_code (x : ApiAttr) (a : Attribute) (h : fromApi current x = .ok a) :
+theorem from_api_code (x : ApiAttr) (a : Attribute) (h : fromApi0 current x = .ok a) :
     a.code ≠ 17 ∧ a.code ≠ 18 ∧
       (a.code = 3 → ∃ b, a = ⟨3, 0x40, .bin b⟩ ∧ AllB b ∧ (b.length = 4 ∨ b.length = 16)) := by
   cases x with
-  | missing => simp [fromApi] at h
-  | other => simp [fromApi] at h
+  | missing => simp [fromApi0] at h
+  | other => simp [fromApi0] at h
   | origin o =>
-      simp only [fromApi] at h
+      simp only [fromApi0] at h
       split at h
       · simp at h
       · simp [newWithValue, canonicalFlags] at h; subst h; simp
-  | med m => simp [fromApi, newWithValue, canonicalFlags] at h; subst h; simp
-  | localPref m => simp [fromApi, newWithValue, canonicalFlags] at h; subst h; simp
-  | atomicAggregate => simp [fromApi, newWithBin, canonicalFlags] at h; subst h; simp
+  | med m => simp [fromApi0, newWithValue, canonicalFlags] at h; subst h; simp
+  | localPref m => simp [fromApi0, newWithValue, canonicalFlags] at h; subst h; simp
+  | atomicAggregate => simp [fromApi0, newWithBin, canonicalFlags] at h; subst h; simp
   | nextHop s =>
-      simp only [fromApi, current] at h
+      simp only [fromApi0, current] at h
       cases s with
       | ip4 n =>
           simp [AStr.parse4, newWithBin, canonicalFlags] at h; subst h
@@ -1879,36 +2086,36 @@ theorem from_api_code (x : ApiAttr) (a : Attribute) (h : fromApi current x = .ok
           exact ⟨by simp, by simp, fun _ => ⟨_, rfl, beN_lt 16 n, Or.inr (beN_length 16 n)⟩⟩
       | bad k => simp [AStr.parse4, AStr.parse6] at h
   | aggregator asn addr =>
-      simp only [fromApi] at h
+      simp only [fromApi0] at h
       cases addr with
       | ip4 n => simp [AStr.parse4, newWithBin, canonicalFlags] at h; subst h; simp
       | ip6 n => simp [AStr.parse4] at h
       | bad k => simp [AStr.parse4] at h
-  | communities l => simp [fromApi, newWithBin, canonicalFlags] at h; subst h; simp
+  | communities l => simp [fromApi0, newWithBin, canonicalFlags] at h; subst h; simp
   | originatorId s =>
-      simp only [fromApi] at h
+      simp only [fromApi0] at h
       cases s with
       | ip4 n => simp [AStr.parse4, newWithValue, canonicalFlags] at h; subst h; simp
       | ip6 n => simp [AStr.parse4] at h
       | bad k => simp [AStr.parse4] at h
   | clusterList ids =>
-      simp only [fromApi] at h
+      simp only [fromApi0] at h
       split at h
       · simp at h
       · simp [newWithBin, canonicalFlags] at h; subst h; simp
-  | largeCommunities l => simp [fromApi, newWithBin, canonicalFlags] at h; subst h; simp
+  | largeCommunities l => simp [fromApi0, newWithBin, canonicalFlags] at h; subst h; simp
   | extCommunities l =>
-      simp only [fromApi] at h
+      simp only [fromApi0] at h
       split at h
       · simp at h
       · simp [newWithBin, canonicalFlags] at h; subst h; simp
   | asPath segs =>
-      simp only [fromApi] at h
+      simp only [fromApi0] at h
       split at h
       · simp at h
       · simp [newWithBin, canonicalFlags] at h; subst h; simp
   | unknown f t v =>
-      simp only [fromApi, current, if_true] at h
+      simp only [fromApi0, current, if_true] at h
       split at h
       · simp at h
       · rename_i hlt
@@ -1930,21 +2137,28 @@ theorem from_api_code (x : ApiAttr) (a : Attribute) (h : fromApi current x = .ok
             refine ⟨?_, ?_, ?_⟩ <;> (intro h3; simp only at h3; subst h3; simp [canonicalFlags] at hcan)
           · simp at h
 theorem from_api_rt (x : ApiAttr) (a : Attribute) (hr : x.inRange = true)
-    (h : fromApi current x = .ok a) (hm : modelledCode a.code = true) : WF a ∧ RT current a := by
-  obtain ⟨hwf, hfc⟩ := from_api_wf x a hr h
-  obtain ⟨n17, n18, h3⟩ := from_api_code x a h
-  refine ⟨hwf, ?_⟩
+    (h : fromApi current x = .ok a) (hm : modelledCode a.code = true) : WF a ∧ flagsCanon a ∧ RT current a := by
+  obtain ⟨hst, h0, hsz⟩ := fromApi_ok x a h
+  obtain ⟨hwf, hfc⟩ := from_api_wf x a hr h0 hsz hst
+  obtain ⟨n17, n18, h3⟩ := from_api_code x a h0
+  refine ⟨hwf, hfc, ?_⟩
   by_cases hc3 : a.code = 3
   · obtain ⟨b, rfl, hb, hl⟩ := h3 hc3
     exact rt_nexthop b hb hl
   · exact roundtrip_attr a hwf hm ⟨hc3, n17, n18⟩ hfc
 
+theorem roundtrip_nlri_real (n : Nlri) (h : WFN n) : netFromApi current (nlriToApi n) = .ok n := by
+  rw [netFromApi_of _ (nlriToApi_strict n h)]
+  exact roundtrip_nlri n h
+
 theorem checkNlri_ok (stream : String) (n : Nlri) (h : WFN n) :
     checkNlri stream (nlriObs current n) = .ok := by
-  obtain ⟨b, hb⟩ := nlri_encode_ok n h
-  have hrt := roundtrip_nlri n h
+  obtain ⟨b, hb, hne⟩ := nlri_encode_ok n h
+  have hrt := roundtrip_nlri_real n h
   simp only [WFN] at h
-  simp [checkNlri, nlriObs, h, hrt, hb, seq]
+  cases b with
+  | nil => exact absurd rfl hne
+  | cons b0 bt => simp [checkNlri, nlriObs, h, hrt, hb, seq]
 
 theorem checkAll_ok (stream : String) (l : List Nlri) (h : ∀ n ∈ l, WFN n) :
     checkAll stream (l.map (nlriObs current)) = .ok := by
@@ -1955,7 +2169,7 @@ theorem checkAll_ok (stream : String) (l : List Nlri) (h : ∀ n ∈ l, WFN n) :
       exact ih (fun m hm => h m (List.mem_cons_of_mem _ hm))
 
 theorem decodeList_wf (f : Fam) (fuel : Nat) (bs : Bytes) (l : List Nlri) (hb : AllB bs)
-    (h : decodeList f fuel bs = .ok l) (hw : ∀ n ∈ l, noWrap n) : ∀ n ∈ l, WFN n := by
+    (h : decodeList f fuel bs = .ok l) : ∀ n ∈ l, WFN n := by
   induction fuel generalizing bs l with
   | zero =>
       cases bs with
@@ -1973,26 +2187,35 @@ theorem decodeList_wf (f : Fam) (fuel : Nat) (bs : Bytes) (l : List Nlri) (hb : 
               cases hl : decodeList f fuel rest with
               | ok l' =>
                   simp only [hl, Out.map_ok, Out.ok.injEq] at h; subst h
-                  obtain ⟨hwf, hrest⟩ := decodeOne_wf f (b :: tl) n rest hb hd (hw n (by simp))
+                  obtain ⟨hwf, hrest⟩ := decodeOne_wf f (b :: tl) n rest hb hd
                   intro m hm
                   rcases List.mem_cons.mp hm with rfl | hm
                   · exact hwf
-                  · exact ih rest l' hrest hl (fun k hk => hw k (List.mem_cons_of_mem _ hk)) m hm
+                  · exact ih rest l' hrest hl m hm
               | err => simp [hl, Out.map] at h
               | panic => simp [hl, Out.map] at h
           | err => simp [hd] at h
           | panic => simp [hd] at h
 
 /-- `attr_from_api` never panics (every fallible step is an `Err`) -/
-theorem fromApi_no_panic (x : ApiAttr) : fromApi current x ≠ .panic := by
+theorem fromApi0_no_panic (x : ApiAttr) : fromApi0 current x ≠ .panic := by
   intro hf
-  cases x <;> simp [fromApi, newWithBin, newWithValue, canonicalFlags] at hf <;>
+  cases x <;> simp [fromApi0, newWithBin, newWithValue, canonicalFlags] at hf <;>
     (repeat' (split at hf)) <;> simp_all
 
+theorem fromApi_no_panic (x : ApiAttr) : fromApi current x ≠ .panic := by
+  unfold fromApi
+  split
+  · simp
+  · cases h0 : fromApi0 current x with
+    | ok a => simp only; split <;> simp
+    | err => simp
+    | panic => exact absurd h0 (fromApi0_no_panic x)
+
 /-- `net_from_api` never panics (modelled kinds) -/
-theorem netFromApi_no_panic (x : ApiNlri) : netFromApi current x ≠ .panic := by
+theorem netFromApi0_no_panic (x : ApiNlri) : netFromApi0 current x ≠ .panic := by
   intro hf
-  cases x <;> simp [netFromApi] at hf <;> (repeat' (split at hf)) <;> simp_all
+  cases x <;> simp [netFromApi0] at hf <;> (repeat' (split at hf)) <;> simp_all
 
 theorem decPrefix_no_panic (w bits : Nat) (bs : Bytes) : decPrefix w bits bs ≠ .panic := by
   unfold decPrefix; split <;> simp
@@ -2023,7 +2246,7 @@ theorem decodeLabeled_no_panic (w : Nat) (bs : Bytes) : decodeLabeled w bs ≠ .
             simp only
             split
             · simp
-            · cases hp : decPrefix w (total - ls.length * 24 % 256) rest' with
+            · cases hp : decPrefix w (total - ls.length * 24) rest' with
               | ok r => obtain ⟨a, r'⟩ := r; simp
               | err => simp
               | panic => exact absurd hp (decPrefix_no_panic _ _ _)
@@ -2082,18 +2305,873 @@ theorem decodeList_no_panic (f : Fam) (fuel : Nat) (bs : Bytes) : decodeList f f
           | err => simp
           | panic => exact absurd hd (decodeOne_no_panic _ _)
 
+theorem netFromApi_no_panic (x : ApiNlri) : netFromApi current x ≠ .panic := by
+  unfold netFromApi
+  split
+  · simp
+  · exact netFromApi0_no_panic x
+
+theorem rd_listed (r : ApiRd) (rd : Rd) (h : rdFromApi r = some rd) : rdToApi rd = r := by
+  cases r with
+  | missing => simp [rdFromApi] at h
+  | twoOctet a b =>
+      simp only [rdFromApi] at h
+      split at h
+      · simp at h
+      · simp only [Option.some.injEq] at h; subst h; rfl
+  | ip4 a b =>
+      cases a with
+      | ip4 n =>
+          simp only [rdFromApi, AStr.parse4] at h
+          split at h
+          · simp at h
+          · simp only [Option.some.injEq] at h; subst h; rfl
+      | ip6 n => simp [rdFromApi, AStr.parse4] at h
+      | bad k => simp [rdFromApi, AStr.parse4] at h
+  | fourOctet a b =>
+      simp only [rdFromApi] at h
+      split at h
+      · simp at h
+      · simp only [Option.some.injEq] at h; subst h; rfl
+
+theorem nlri_listed_same (x : ApiNlri) (n : Nlri) (hr : x.inRange = true) (hst : x.strict = true)
+    (h : netFromApi0 current x = .ok n) : nlriToApi n = x := by
+  cases x with
+  | missing => simp [netFromApi0] at h
+  | other => simp [netFromApi0] at h
+  | «prefix» s len =>
+      cases s with
+      | ip4 a =>
+          simp only [netFromApi0] at h
+          split at h
+          · simp at h
+          · simp only [Out.ok.injEq] at h; subst h; rfl
+      | ip6 a =>
+          simp only [netFromApi0] at h
+          split at h
+          · simp at h
+          · simp only [Out.ok.injEq] at h; subst h; rfl
+      | bad k => simp [netFromApi0] at h
+  | labeled labels len s =>
+      cases s with
+      | bad k => simp [netFromApi0] at h
+      | ip4 a =>
+          simp only [netFromApi0, current, true_and] at h
+          split at h
+          · simp at h
+          · rename_i hc
+            simp only [Out.ok.injEq] at h; subst h
+            simp only [ApiNlri.strict, Bool.and_eq_true, List.all_eq_true, decide_eq_true_eq] at hst
+            have hm : len % 256 = len := Nat.mod_eq_of_lt (by omega)
+            simp [nlriToApi, hm, map_mod_id labels hst.1]
+      | ip6 a =>
+          simp only [netFromApi0, current, true_and] at h
+          split at h
+          · simp at h
+          · rename_i hc
+            simp only [Out.ok.injEq] at h; subst h
+            simp only [ApiNlri.strict, Bool.and_eq_true, List.all_eq_true, decide_eq_true_eq] at hst
+            have hm : len % 256 = len := Nat.mod_eq_of_lt (by omega)
+            simp [nlriToApi, hm, map_mod_id labels hst.1]
+  | vpn labels rd len s =>
+      simp only [netFromApi0] at h
+      cases rd with
+      | none => simp at h
+      | some r =>
+          simp only at h
+          cases hrd : rdFromApi r with
+          | none => simp [hrd] at h
+          | some rd' =>
+              simp only [hrd] at h
+              have hrl := rd_listed r rd' hrd
+              cases s with
+              | bad k => simp at h
+              | ip4 a =>
+                  simp only [current, true_and] at h
+                  split at h
+                  · simp at h
+                  · rename_i hc
+                    simp only [Out.ok.injEq] at h; subst h
+                    simp only [ApiNlri.strict, Bool.and_eq_true, List.all_eq_true, decide_eq_true_eq] at hst
+                    have hm : len % 256 = len := Nat.mod_eq_of_lt (by omega)
+                    simp [nlriToApi, hm, map_mod_id labels hst.1, hrl]
+              | ip6 a =>
+                  simp only [current, true_and] at h
+                  split at h
+                  · simp at h
+                  · rename_i hc
+                    simp only [Out.ok.injEq] at h; subst h
+                    simp only [ApiNlri.strict, Bool.and_eq_true, List.all_eq_true, decide_eq_true_eq] at hst
+                    have hm : len % 256 = len := Nat.mod_eq_of_lt (by omega)
+                    simp [nlriToApi, hm, map_mod_id labels hst.1, hrl]
+
+/-! ## "listed with the same content": `attr_to_api (attr_from_api x)` against `x` -/
+
+theorem ofBe_beN_u32 (n : Nat) (h : n < 4294967296) : ofBe (beN 4 n) = n := by
+  rw [ofBe_beN]; exact Nat.mod_eq_of_lt (by simpa using h)
+
+theorem u32s_inv (l : List Nat) (rest : Bytes) (h : ∀ x ∈ l, x < 4294967296) :
+    u32s l.length (l.flatMap (beN 4) ++ rest) = l := by
+  induction l with
+  | nil => simp [u32s]
+  | cons x xs ih =>
+      have hx := h x (by simp)
+      have h4 : beN 4 x = [x / 16777216 % 256, x / 65536 % 256, x / 256 % 256, x % 256] := by
+        simp [beN, Nat.div_div_eq_div_mul]
+      have hv := ofBe_beN_u32 x hx
+      rw [h4] at hv
+      simp only [List.flatMap_cons, h4, List.length_cons, List.cons_append, List.nil_append, u32s, hv]
+      rw [ih (fun y hy => h y (List.mem_cons_of_mem _ hy))]
+
+theorem u32s_inv' (l : List Nat) (h : ∀ x ∈ l, x < 4294967296) :
+    u32s ((l.flatMap (beN 4)).length / 4) (l.flatMap (beN 4)) = l := by
+  have := u32s_inv l [] h
+  rw [List.append_nil] at this
+  rw [flatMap_beN4_length]
+  have e : l.length * 4 / 4 = l.length := by omega
+  rw [e]; exact this
+
+theorem asPathToSegs_enc (segs : List (Nat × List Nat))
+    (h : ∀ s ∈ segs, (1 ≤ s.1 ∧ s.1 ≤ 4) ∧ 1 ≤ s.2.length ∧ s.2.length ≤ 255 ∧ ∀ x ∈ s.2, x < 4294967296) :
+    asPathToSegs (segs.flatMap encSeg) = .ok segs := by
+  induction segs with
+  | nil => simp [asPathToSegs]
+  | cons s tl ih =>
+      obtain ⟨⟨h1, h4⟩, hl1, hl, hx⟩ := h s (by simp)
+      have ht : s.1 % 256 = s.1 := Nat.mod_eq_of_lt (by omega)
+      have hlen : s.2.length % 256 = s.2.length := Nat.mod_eq_of_lt (by omega)
+      simp only [List.flatMap_cons, encSeg, ht, hlen, List.cons_append, List.nil_append]
+      rw [asPathToSegs]
+      have hp : (s.2.flatMap (beN 4)).length = s.2.length * 4 := flatMap_beN4_length _
+      have hle : s.2.length * 4 ≤ (s.2.flatMap (beN 4) ++ tl.flatMap encSeg).length := by
+        rw [List.length_append, hp]; omega
+      simp only [hle, if_true]
+      rw [u32s_inv s.2 _ hx]
+      have hd : (s.2.flatMap (beN 4) ++ tl.flatMap encSeg).drop (s.2.length * 4) = tl.flatMap encSeg := by
+        rw [← hp, List.drop_left]
+      rw [hd, ih (fun s' hs' => h s' (List.mem_cons_of_mem _ hs'))]
+      rfl
+theorem beN2_eq (a : Nat) (h : a ≤ 65535) : ∃ x y, beN 2 a = [x, y] ∧ ofBe [x, y] = a := by
+  refine ⟨a / 256 % 256, a % 256, by simp [beN], ?_⟩
+  have := ofBe_beN 2 a
+  simp only [beN, List.nil_append, List.cons_append] at this
+  rw [this]; exact Nat.mod_eq_of_lt (by omega)
+
+theorem beN4_eq (a : Nat) (h : a < 4294967296) : ∃ x y z w, beN 4 a = [x, y, z, w] ∧ ofBe [x, y, z, w] = a := by
+  refine ⟨a / 16777216 % 256, a / 65536 % 256, a / 256 % 256, a % 256, by simp [beN, Nat.div_div_eq_div_mul], ?_⟩
+  have := ofBe_beN_u32 a h
+  simpa [beN, Nat.div_div_eq_div_mul] using this
+
+theorem boolBit_cases (b : Bool) (v : Nat) : (b = true ∧ boolBit b v = v) ∨ (b = false ∧ boolBit b v = 0) := by
+  cases b <;> simp [boolBit]
+
+/-- a typed extended community that `write_extcom` accepts is read back as itself -/
+theorem readExtcom_write (e : ExtCom) (c : Bytes) (hr : e.inRange = true) (hs : e.strict = true)
+    (hw : writeExtcom e = some c) (hty : ∀ ty v, e ≠ .unknown ty v) : readExtcom c = e := by
+  cases e with
+  | missing => simp [writeExtcom] at hw
+  | other => simp [writeExtcom] at hw
+  | unknown ty v => exact absurd rfl (hty ty v)
+  | twoOctetAs t sub a la =>
+      simp [writeExtcom, ensure, ite_bind_eq_some] at hw
+      obtain ⟨h1, h2, rfl⟩ := hw
+      simp only [ExtCom.inRange, u32, Bool.and_eq_true, decide_eq_true_eq] at hr
+      obtain ⟨x, y, e2, v2⟩ := beN2_eq a h2
+      obtain ⟨p, q, r, w, e4, v4⟩ := beN4_eq la hr.2
+      rw [e2, e4]
+      cases t <;> simp [readExtcom, boolBit, v2, v4]
+  | ipv4 t sub addr la =>
+      simp [writeExtcom, ensure, ite_bind_eq_some, parse4_bind_eq_some] at hw
+      obtain ⟨h1, n, rfl, h2, rfl⟩ := hw
+      simp only [ExtCom.inRange, AStr.inRange, u32, Bool.and_eq_true, decide_eq_true_eq] at hr
+      obtain ⟨x, y, e2, v2⟩ := beN2_eq la h2
+      obtain ⟨p, q, r, w, e4, v4⟩ := beN4_eq n hr.1.2
+      rw [e2, e4]
+      cases t <;> simp [readExtcom, boolBit, v2, v4]
+  | fourOctetAs t sub a la =>
+      simp [writeExtcom, ensure, ite_bind_eq_some] at hw
+      obtain ⟨h1, h2, rfl⟩ := hw
+      simp only [ExtCom.inRange, u32, Bool.and_eq_true, decide_eq_true_eq] at hr
+      obtain ⟨x, y, e2, v2⟩ := beN2_eq la h2
+      obtain ⟨p, q, r, w, e4, v4⟩ := beN4_eq a hr.1.2
+      rw [e2, e4]
+      cases t <;> simp [readExtcom, boolBit, v2, v4]
+  | mup sub a b =>
+      simp [writeExtcom, ensure, ite_bind_eq_some] at hw
+      obtain ⟨h1, h2, rfl⟩ := hw
+      simp only [ExtCom.inRange, u32, Bool.and_eq_true, decide_eq_true_eq] at hr
+      obtain ⟨x, y, e2, v2⟩ := beN2_eq a h2
+      obtain ⟨p, q, r, w, e4, v4⟩ := beN4_eq b hr.2
+      rw [e2, e4]
+      simp [readExtcom, v2, v4]
+  | trafficRate a rt =>
+      simp [writeExtcom, ensure, ite_bind_eq_some] at hw
+      obtain ⟨h1, rfl⟩ := hw
+      simp only [ExtCom.inRange, u32, Bool.and_eq_true, decide_eq_true_eq] at hr
+      obtain ⟨x, y, e2, v2⟩ := beN2_eq a h1
+      obtain ⟨p, q, r, w, e4, v4⟩ := beN4_eq rt hr.2
+      rw [e2, e4]
+      simp [readExtcom, v2, v4]
+  | trafficAction t sm =>
+      simp [writeExtcom] at hw
+      subst hw
+      cases t <;> cases sm <;> simp [readExtcom, boolBit]
+  | redirect2 a l =>
+      simp [writeExtcom, ensure, ite_bind_eq_some] at hw
+      obtain ⟨h1, rfl⟩ := hw
+      simp only [ExtCom.inRange, u32, Bool.and_eq_true, decide_eq_true_eq] at hr
+      obtain ⟨x, y, e2, v2⟩ := beN2_eq a h1
+      obtain ⟨p, q, r, w, e4, v4⟩ := beN4_eq l hr.2
+      rw [e2, e4]
+      simp [readExtcom, v2, v4]
+  | trafficRemark d =>
+      simp [writeExtcom] at hw
+      subst hw
+      simp only [ExtCom.strict, decide_eq_true_eq] at hs
+      have : d % 64 = d := Nat.mod_eq_of_lt (by omega)
+      simp [readExtcom, this]
+  | redirectIp4 addr l =>
+      simp [writeExtcom, ensure, ite_bind_eq_some, parse4_bind_eq_some] at hw
+      obtain ⟨n, rfl, h2, rfl⟩ := hw
+      simp only [ExtCom.inRange, AStr.inRange, u32, Bool.and_eq_true, decide_eq_true_eq] at hr
+      obtain ⟨x, y, e2, v2⟩ := beN2_eq l h2
+      obtain ⟨p, q, r, w, e4, v4⟩ := beN4_eq n hr.1
+      rw [e2, e4]
+      simp [readExtcom, v2, v4]
+  | redirect4 a l =>
+      simp [writeExtcom, ensure, ite_bind_eq_some] at hw
+      obtain ⟨h1, rfl⟩ := hw
+      simp only [ExtCom.inRange, u32, Bool.and_eq_true, decide_eq_true_eq] at hr
+      obtain ⟨x, y, e2, v2⟩ := beN2_eq l h1
+      obtain ⟨p, q, r, w, e4, v4⟩ := beN4_eq a hr.1
+      rw [e2, e4]
+      simp [readExtcom, v2, v4]
+theorem readExtcom_unknown (c : Bytes) (hl : c.length = 8) (ty : Nat) (v : Bytes)
+    (h : readExtcom c = .unknown ty v) : v = c ∧ ∃ rest, c = ty :: rest := by
+  match c, hl with
+  | [t, s, b2, b3, b4, b5, b6, b7], _ =>
+      simp only [readExtcom] at h
+      repeat' split at h
+      all_goals (first | (simp at h; done) | (simp only [ExtCom.unknown.injEq] at h; obtain ⟨rfl, rfl⟩ := h; exact ⟨rfl, _, rfl⟩))
+
+theorem sameExtcom_refl_typed (e : ExtCom) (hty : ∀ ty v, e ≠ .unknown ty v) : sameExtcom e e = true := by
+  cases e <;> first | (simp [sameExtcom]; done) | exact absurd rfl (hty _ _)
+
+theorem show_same (e : ExtCom) (c : Bytes) (hr : e.inRange = true) (hs : e.strict = true)
+    (hw : writeExtcom e = some c) : sameExtcom e (showExtcom current c) = true := by
+  have hlen := (writeExtcom_len e c hr hw).1
+  by_cases hu : ∃ ty v, e = .unknown ty v
+  · obtain ⟨ty, v, rfl⟩ := hu
+    simp only [writeExtcom] at hw
+    split at hw
+    · simp at hw
+    · simp only [Option.some.injEq] at hw; subst hw
+      have hhead : ∃ rest, v = ty :: rest := by
+        match v, hlen with
+        | b :: rest, _ =>
+            simp only [ExtCom.strict, decide_eq_true_eq] at hs
+            exact ⟨rest, by rw [hs]⟩
+      obtain ⟨rest, rfl⟩ := hhead
+      unfold showExtcom
+      simp only [current, if_true]
+      split
+      · cases hre : readExtcom (ty :: rest) with
+        | unknown ty' v' =>
+            obtain ⟨hv, rest', hc⟩ := readExtcom_unknown _ hlen ty' v' hre
+            simp only [List.cons.injEq] at hc
+            simp [sameExtcom, hv, hc.1]
+        | _ => simp [sameExtcom]
+      · simp [sameExtcom]
+  · have hty : ∀ ty v, e ≠ .unknown ty v := fun ty v he => hu ⟨ty, v, he⟩
+    have hre := readExtcom_write e c hr hs hw hty
+    unfold showExtcom
+    simp only [current, if_true, hre, hw]
+    exact sameExtcom_refl_typed e hty
+
+theorem chunksN_flatten_inv (cs : List Bytes) (h : ∀ c ∈ cs, c.length = 8) :
+    chunksN 8 (cs.flatten.length / 8) cs.flatten = cs := by
+  induction cs with
+  | nil => simp [chunksN]
+  | cons c cs ih =>
+      have hc := h c (by simp)
+      have hrest := ih (fun c' hc' => h c' (List.mem_cons_of_mem _ hc'))
+      have hlen : (c :: cs).flatten.length / 8 = cs.flatten.length / 8 + 1 := by
+        simp only [List.flatten_cons, List.length_append, hc]; omega
+      rw [hlen]
+      simp only [chunksN, List.flatten_cons]
+      have e1 : (c ++ cs.flatten).take 8 = c := by rw [← hc, List.take_left]
+      have e2 : (c ++ cs.flatten).drop 8 = cs.flatten := by rw [← hc, List.drop_left]
+      rw [e1, e2, hrest]
+
+theorem mapM_show_same (l : List ExtCom) (cs : List Bytes) (hr : ∀ e ∈ l, e.inRange = true)
+    (hs : ∀ e ∈ l, e.strict = true) (h : l.mapM writeExtcom = some cs) :
+    sameExtcoms l (cs.map (showExtcom current)) = true ∧ ∀ c ∈ cs, c.length = 8 := by
+  induction l generalizing cs with
+  | nil => simp at h; subst h; simp [sameExtcoms]
+  | cons e es ih =>
+      simp only [List.mapM_cons, Option.bind_eq_bind, Option.pure_def] at h
+      cases hfe : writeExtcom e with
+      | none => simp [hfe] at h
+      | some c =>
+          cases hes : es.mapM writeExtcom with
+          | none => simp [hfe, hes] at h
+          | some cs' =>
+              simp [hfe, hes] at h
+              subst h
+              obtain ⟨i1, i2⟩ := ih cs' (fun e' he' => hr e' (List.mem_cons_of_mem _ he'))
+                (fun e' he' => hs e' (List.mem_cons_of_mem _ he')) hes
+              refine ⟨?_, ?_⟩
+              · simp only [List.map_cons, sameExtcoms, Bool.and_eq_true]
+                exact ⟨show_same e c (hr e (by simp)) (hs e (by simp)) hfe, i1⟩
+              · intro c' hc'
+                rcases List.mem_cons.mp hc' with rfl | hc'
+                · exact (writeExtcom_len e _ (hr e (by simp)) hfe).1
+                · exact i2 c' hc'
+def enc3 (t : Nat × Nat × Nat) : Bytes := beN 4 t.1 ++ beN 4 t.2.1 ++ beN 4 t.2.2
+
+theorem triples_inv (l : List (Nat × Nat × Nat)) (rest : Bytes)
+    (h : ∀ t ∈ l, t.1 < 4294967296 ∧ t.2.1 < 4294967296 ∧ t.2.2 < 4294967296) :
+    triples l.length (l.flatMap enc3 ++ rest) = l := by
+  induction l with
+  | nil => simp [triples]
+  | cons t ts ih =>
+      obtain ⟨h1, h2, h3⟩ := h t (by simp)
+      obtain ⟨a, b, c⟩ := t
+      simp only at h1 h2 h3
+      obtain ⟨x1, x2, x3, x4, e1, v1⟩ := beN4_eq a h1
+      obtain ⟨y1, y2, y3, y4, e2, v2⟩ := beN4_eq b h2
+      obtain ⟨z1, z2, z3, z4, e3', v3⟩ := beN4_eq c h3
+      simp only [List.flatMap_cons, enc3, e1, e2, e3', List.length_cons, triples, List.cons_append,
+        List.nil_append, List.take, List.drop, v1, v2, v3]
+      rw [ih (fun t' ht' => h t' (List.mem_cons_of_mem _ ht'))]
+
+theorem flatMap_enc3_length (l : List (Nat × Nat × Nat)) : (l.flatMap enc3).length = l.length * 12 := by
+  induction l with
+  | nil => rfl
+  | cons t ts ih => simp only [List.flatMap_cons, List.length_append, enc3, beN_length, ih, List.length_cons]; omega
+
+theorem mapM_parse4_eq (ids : List AStr) (l : List Nat) (h : ids.mapM AStr.parse4 = some l) :
+    ids = l.map AStr.ip4 := by
+  induction ids generalizing l with
+  | nil => simp at h; subst h; rfl
+  | cons s ss ih =>
+      simp only [List.mapM_cons, Option.bind_eq_bind, Option.pure_def] at h
+      cases s with
+      | ip4 n =>
+          cases hss : ss.mapM AStr.parse4 with
+          | none => simp [AStr.parse4, hss] at h
+          | some l' =>
+              simp [AStr.parse4, hss] at h
+              subst h
+              simp [ih l' hss]
+      | ip6 n => simp [AStr.parse4] at h
+      | bad k => simp [AStr.parse4] at h
+
+theorem toApi_c2 (f : Nat) (b : Bytes) :
+    toApi current ⟨2, f, .bin b⟩ = (asPathToSegs b).bind fun segs => .ok (.asPath segs) := by
+  simp [toApi, Attribute.binary]; rfl
+theorem toApi_c7 (f : Nat) (b : Bytes) (h : b.length = 8) :
+    toApi current ⟨7, f, .bin b⟩ = .ok (.aggregator (ofBe (b.take 4)) (.ip4 (ofBe (b.drop 4)))) := by
+  simp [toApi, Attribute.binary, h]
+theorem toApi_c8 (f : Nat) (b : Bytes) :
+    toApi current ⟨8, f, .bin b⟩ = .ok (.communities (u32s (b.length / 4) b)) := by
+  simp [toApi, Attribute.binary]
+theorem toApi_c10 (f : Nat) (b : Bytes) :
+    toApi current ⟨10, f, .bin b⟩ = .ok (.clusterList ((u32s (b.length / 4) b).map .ip4)) := by
+  simp [toApi, Attribute.binary]
+theorem toApi_c32 (f : Nat) (b : Bytes) :
+    toApi current ⟨32, f, .bin b⟩ = .ok (.largeCommunities (triples (b.length / 12) b)) := by
+  simp [toApi, Attribute.binary]
+theorem toApi_c16 (f : Nat) (b : Bytes) :
+    toApi current ⟨16, f, .bin b⟩ =
+      .ok (.extCommunities ((chunksN 8 (b.length / 8) b).map (showExtcom current))) := by
+  simp [toApi, Attribute.binary]
+
+/-- **listed with the same content**: what `attr_to_api` shows for an accepted value is the message that
+    was sent (up to the two documented re-presentations of `Spec.sameListed`). -/
+theorem listed_same (x : ApiAttr) (a : Attribute) (y : ApiAttr) (hr : x.inRange = true)
+    (h : fromApi current x = .ok a) (hy : toApi current a = .ok y) : sameListed x y = true := by
+  obtain ⟨hst, h0, hsz⟩ := fromApi_ok x a h
+  cases x with
+  | missing => simp [fromApi0] at h0
+  | other => simp [fromApi0] at h0
+  | origin o =>
+      simp only [fromApi0] at h0
+      split at h0
+      · simp at h0
+      · simp [newWithValue, canonicalFlags] at h0; subst h0
+        simp [toApi, Attribute.value] at hy; subst hy; simp [sameListed]
+  | med m =>
+      simp [fromApi0, newWithValue, canonicalFlags] at h0; subst h0
+      simp [toApi, Attribute.value] at hy; subst hy; simp [sameListed]
+  | localPref m =>
+      simp [fromApi0, newWithValue, canonicalFlags] at h0; subst h0
+      simp [toApi, Attribute.value] at hy; subst hy; simp [sameListed]
+  | atomicAggregate =>
+      simp [fromApi0, newWithBin, canonicalFlags] at h0; subst h0
+      simp [toApi] at hy; subst hy; simp [sameListed]
+  | nextHop s =>
+      simp only [fromApi0, current] at h0
+      simp only [ApiAttr.inRange, AStr.inRange, u32, decide_eq_true_eq] at hr
+      cases s with
+      | ip4 n =>
+          simp [AStr.parse4, newWithBin, canonicalFlags] at h0; subst h0
+          simp only [AStr.inRange, u32, decide_eq_true_eq] at hr
+          have : ofBe ((beN 4 n).take 4) = n := by
+            rw [List.take_of_length_le (by simp [beN_length])]; exact ofBe_beN_u32 n hr
+          simp [toApi, Attribute.binary, beN_length, this] at hy; subst hy; simp [sameListed]
+      | ip6 n =>
+          simp [AStr.parse4, AStr.parse6, newWithBin, canonicalFlags] at h0; subst h0
+          simp only [AStr.inRange, decide_eq_true_eq] at hr
+          have : ofBe (beN 16 n) = n := by
+            rw [ofBe_beN, pow16]; exact Nat.mod_eq_of_lt hr
+          simp [toApi, Attribute.binary, beN_length, this] at hy; subst hy; simp [sameListed]
+      | bad k => simp [AStr.parse4, AStr.parse6] at h0
+  | aggregator asn addr =>
+      simp only [fromApi0] at h0
+      simp only [ApiAttr.inRange, u32, Bool.and_eq_true, decide_eq_true_eq] at hr
+      cases addr with
+      | ip4 n =>
+          simp [AStr.parse4, newWithBin, canonicalFlags] at h0; subst h0
+          have hn := hr.2
+          simp only [AStr.inRange, u32, decide_eq_true_eq] at hn
+          obtain ⟨x1, x2, x3, x4, e1, v1⟩ := beN4_eq asn hr.1
+          obtain ⟨y1, y2, y3, y4, e2, v2⟩ := beN4_eq n hn
+          rw [e1, e2] at hy
+          rw [toApi_c7 _ _ rfl] at hy
+          simp only [List.cons_append, List.nil_append, List.take, List.drop, v1, v2, Out.ok.injEq] at hy
+          subst hy; simp [sameListed]
+      | ip6 n => simp [AStr.parse4] at h0
+      | bad k => simp [AStr.parse4] at h0
+  | communities l =>
+      simp [fromApi0, newWithBin, canonicalFlags] at h0; subst h0
+      simp only [ApiAttr.inRange, List.all_eq_true, u32, decide_eq_true_eq] at hr
+      rw [toApi_c8, u32s_inv' l hr] at hy
+      simp only [Out.ok.injEq] at hy
+      subst hy; simp [sameListed]
+  | originatorId s =>
+      simp only [fromApi0] at h0
+      cases s with
+      | ip4 n =>
+          simp [AStr.parse4, newWithValue, canonicalFlags] at h0; subst h0
+          simp [toApi, Attribute.value] at hy; subst hy; simp [sameListed]
+      | ip6 n => simp [AStr.parse4] at h0
+      | bad k => simp [AStr.parse4] at h0
+  | clusterList ids =>
+      simp only [fromApi0] at h0
+      split at h0
+      · simp at h0
+      · rename_i l hl
+        simp [newWithBin, canonicalFlags] at h0; subst h0
+        have hids := mapM_parse4_eq ids l hl
+        subst hids
+        simp only [ApiAttr.inRange, List.all_eq_true, List.mem_map] at hr
+        have hl32 : ∀ x ∈ l, x < 4294967296 := by
+          intro x hx
+          have := hr (.ip4 x) ⟨x, hx, rfl⟩
+          simpa [AStr.inRange, u32] using this
+        rw [toApi_c10, u32s_inv' l hl32] at hy
+        simp only [Out.ok.injEq] at hy
+        subst hy; simp [sameListed]
+  | largeCommunities l =>
+      simp only [fromApi0, okOrErr_eq, newWithBin, canonicalFlags] at h0
+      simp at h0; subst h0
+      simp only [ApiAttr.inRange, List.all_eq_true, u32, Bool.and_eq_true, decide_eq_true_eq] at hr
+      have e : (l.flatMap fun t => beN 4 t.1 ++ (beN 4 t.2.1 ++ beN 4 t.2.2)) = l.flatMap enc3 := by
+        congr 1
+      have e12 : l.length * 12 / 12 = l.length := by omega
+      have hinv := triples_inv l [] (fun t ht => ⟨(hr t ht).1.1, (hr t ht).1.2, (hr t ht).2⟩)
+      rw [List.append_nil] at hinv
+      rw [e, toApi_c32, flatMap_enc3_length, e12, hinv] at hy
+      simp only [Out.ok.injEq] at hy
+      subst hy; simp [sameListed]
+  | extCommunities l =>
+      simp only [fromApi0] at h0
+      split at h0
+      · simp at h0
+      · rename_i cs hcs
+        simp [newWithBin, canonicalFlags] at h0; subst h0
+        simp only [ApiAttr.inRange, List.all_eq_true] at hr
+        simp only [ApiAttr.strict, List.all_eq_true] at hst
+        obtain ⟨hsame, hlens⟩ := mapM_show_same l cs hr hst hcs
+        rw [toApi_c16, chunksN_flatten_inv cs hlens] at hy
+        simp only [Out.ok.injEq] at hy
+        subst hy
+        simpa [sameListed] using hsame
+  | asPath segs =>
+      simp only [fromApi0, current] at h0
+      split at h0
+      · simp at h0
+      · rename_i hany
+        simp [newWithBin, canonicalFlags] at h0; subst h0
+        simp only [ApiAttr.inRange, List.all_eq_true, Bool.and_eq_true, u32, decide_eq_true_eq] at hr
+        simp only [ApiAttr.strict, List.all_eq_true, decide_eq_true_eq] at hst
+        have hsegs : ∀ s ∈ segs, (1 ≤ s.1 ∧ s.1 ≤ 4) ∧ 1 ≤ s.2.length ∧ s.2.length ≤ 255 ∧
+            ∀ x ∈ s.2, x < 4294967296 := by
+          intro s hs
+          simp only [true_and, List.any_eq_true, not_exists, not_and, Bool.or_eq_true,
+            Bool.not_eq_true', decide_eq_false_iff_not, decide_eq_true_eq, not_or] at hany
+          have h1 := hany s hs
+          have h2 := hst s hs
+          exact ⟨by omega, by omega, by omega, (hr s hs).2⟩
+        have e : (segs.flatMap fun s => s.1 % 256 :: s.2.length % 256 :: s.2.flatMap (beN 4))
+            = segs.flatMap encSeg := rfl
+        rw [e, toApi_c2, asPathToSegs_enc segs hsegs] at hy
+        simp only [Out.bind, Out.ok.injEq] at hy
+        subst hy; simp [sameListed]
+  | unknown f t v =>
+      simp only [fromApi0, current, if_true] at h0
+      split at h0
+      · simp at h0
+      · rename_i hlt
+        have ht : t % 256 = t := Nat.mod_eq_of_lt (by omega)
+        rw [ht] at h0
+        simp only [ApiAttr.strict, ht] at hst
+        split at h0
+        · rename_i fl hcan
+          split at h0
+          · simp at h0
+          · rename_i hty
+            simp only [typedCode, decide_eq_true_eq, not_or] at hty
+            obtain ⟨n1, n2, n3, n4, n5, n6, n7, n8, n9, n10, n16, n32, n23, n29, n17, n18⟩ := hty
+            split at h0
+            · simp at h0
+            · simp only [Out.ok.injEq] at h0; subst h0
+              simp only [hcan, Bool.or_eq_true, decide_eq_true_eq] at hst
+              simp only [toApi, Attribute.binary, unwrapO_some, Out.bind_ok', Out.pure_eq] at hy
+              simp [*] at hy
+              subst hy
+              simp only [sameListed, Bool.and_eq_true, decide_eq_true_eq, Bool.or_eq_true, true_and]
+              omega
+        · rename_i hcan
+          split at h0
+          · simp only [Out.ok.injEq] at h0; subst h0
+            have hne : ∀ k, canonicalFlags k ≠ none → t ≠ k := by
+              intro k hk htk; subst htk; exact hk hcan
+            simp only [toApi, Attribute.binary, unwrapO_some, Out.bind_ok', Out.pure_eq] at hy
+            have c1 := hne 1 (by simp [canonicalFlags]); have c2 := hne 2 (by simp [canonicalFlags])
+            have c3 := hne 3 (by simp [canonicalFlags]); have c4 := hne 4 (by simp [canonicalFlags])
+            have c5 := hne 5 (by simp [canonicalFlags]); have c6 := hne 6 (by simp [canonicalFlags])
+            have c7 := hne 7 (by simp [canonicalFlags]); have c8 := hne 8 (by simp [canonicalFlags])
+            have c9 := hne 9 (by simp [canonicalFlags]); have c10 := hne 10 (by simp [canonicalFlags])
+            have c16 := hne 16 (by simp [canonicalFlags]); have c32 := hne 32 (by simp [canonicalFlags])
+            simp [*] at hy
+            subst hy
+            simp [sameListed]
+          · simp at h0
+
+theorem checkListed_ok0 (x : ApiAttr) (a : Attribute) (hr : x.inRange = true)
+    (h : fromApi current x = .ok a) : checkListed x (attrObs current a) = .ok := by
+  unfold checkListed attrObs
+  simp only
+  cases hy : toApi current a with
+  | ok y => simp [listed_same x a y hr h hy]
+  | err => rfl
+  | panic => rfl
+
+theorem checkListed_ok (x : ApiAttr) (a : Attribute) (hr : x.inRange = true)
+    (h : fromApi current x = .ok a) (_hm : modelledCode a.code = true) :
+    checkListed x (attrObs current a) = .ok := checkListed_ok0 x a hr h
+
+/-! ## AddPath then ListPath -/
+
+/-- the attribute type code a message kind is stored under -/
+def codeOf : ApiAttr → Nat
+  | .missing => 0 | .other => 0
+  | .unknown _ t _ => t
+  | .origin _ => 1 | .asPath _ => 2 | .nextHop _ => 3 | .med _ => 4 | .localPref _ => 5
+  | .atomicAggregate => 6 | .aggregator .. => 7 | .communities _ => 8 | .originatorId _ => 9
+  | .clusterList _ => 10 | .largeCommunities _ => 32 | .extCommunities _ => 16
+
+theorem from_api_codeOf (x : ApiAttr) (a : Attribute) (h : fromApi0 current x = .ok a) : a.code = codeOf x := by
+  cases x with
+  | missing => simp [fromApi0] at h
+  | other => simp [fromApi0] at h
+  | origin o =>
+      simp only [fromApi0] at h
+      split at h
+      · simp at h
+      · simp [newWithValue, canonicalFlags] at h; subst h; rfl
+  | med m => simp [fromApi0, newWithValue, canonicalFlags] at h; subst h; rfl
+  | localPref m => simp [fromApi0, newWithValue, canonicalFlags] at h; subst h; rfl
+  | atomicAggregate => simp [fromApi0, newWithBin, canonicalFlags] at h; subst h; rfl
+  | nextHop s =>
+      simp only [fromApi0, current] at h
+      cases s with
+      | ip4 n => simp [AStr.parse4, newWithBin, canonicalFlags] at h; subst h; rfl
+      | ip6 n => simp [AStr.parse4, AStr.parse6, newWithBin, canonicalFlags] at h; subst h; rfl
+      | bad k => simp [AStr.parse4, AStr.parse6] at h
+  | aggregator asn addr =>
+      simp only [fromApi0] at h
+      cases addr with
+      | ip4 n => simp [AStr.parse4, newWithBin, canonicalFlags] at h; subst h; rfl
+      | ip6 n => simp [AStr.parse4] at h
+      | bad k => simp [AStr.parse4] at h
+  | communities l => simp [fromApi0, newWithBin, canonicalFlags] at h; subst h; rfl
+  | originatorId s =>
+      simp only [fromApi0] at h
+      cases s with
+      | ip4 n => simp [AStr.parse4, newWithValue, canonicalFlags] at h; subst h; rfl
+      | ip6 n => simp [AStr.parse4] at h
+      | bad k => simp [AStr.parse4] at h
+  | clusterList ids =>
+      simp only [fromApi0] at h
+      split at h
+      · simp at h
+      · simp [newWithBin, canonicalFlags] at h; subst h; rfl
+  | largeCommunities l => simp [fromApi0, newWithBin, canonicalFlags] at h; subst h; rfl
+  | extCommunities l =>
+      simp only [fromApi0] at h
+      split at h
+      · simp at h
+      · simp [newWithBin, canonicalFlags] at h; subst h; rfl
+  | asPath segs =>
+      simp only [fromApi0] at h
+      split at h
+      · simp at h
+      · simp [newWithBin, canonicalFlags] at h; subst h; rfl
+  | unknown f t v =>
+      simp only [fromApi0, current, if_true] at h
+      split at h
+      · simp at h
+      · rename_i hlt
+        have ht : t % 256 = t := Nat.mod_eq_of_lt (by omega)
+        rw [ht] at h
+        split at h
+        · split at h
+          · simp at h
+          · split at h
+            · simp at h
+            · simp only [Out.ok.injEq] at h; subst h; rfl
+        · split at h
+          · simp only [Out.ok.injEq] at h; subst h; rfl
+          · simp at h
+
+/-- message kinds that `local_path` stores (it consumes NEXT_HOP / MP_REACH and drops ORIGINATOR_ID,
+    CLUSTER_LIST, MP_UNREACH) -/
+def kept (x : ApiAttr) : Prop := codeOf x ≠ 3 ∧ codeOf x ≠ 9 ∧ codeOf x ≠ 10 ∧ codeOf x ≠ 14 ∧ codeOf x ≠ 15
+
+theorem keepAttrs_id (as : List Attribute)
+    (h : ∀ a ∈ as, a.code ≠ 3 ∧ a.code ≠ 9 ∧ a.code ≠ 10 ∧ a.code ≠ 14 ∧ a.code ≠ 15) : keepAttrs as = .ok as := by
+  induction as with
+  | nil => rfl
+  | cons a rest ih =>
+      obtain ⟨h3, h9, h10, h14, h15⟩ := h a (by simp)
+      simp only [keepAttrs, h14, if_false]
+      rw [if_neg (by omega), ih (fun b hb => h b (List.mem_cons_of_mem _ hb))]
+      rfl
+
+/-- element-wise relation between two lists of the same length -/
+inductive Zip2 {α β} (R : α → β → Prop) : List α → List β → Prop where
+  | nil : Zip2 R [] []
+  | cons {a b l₁ l₂} : R a b → Zip2 R l₁ l₂ → Zip2 R (a :: l₁) (b :: l₂)
+
+/-- sent messages and what is listed for them correspond one to one -/
+theorem convert_list (xs : List ApiAttr) (as : List Attribute) (hr : ∀ x ∈ xs, x.inRange = true)
+    (hc : convertAll current xs = .ok as) (hm : ∀ a ∈ as, modelledCode a.code = true) :
+    ∃ ys, listAttrs current as = .ok ys ∧ Zip2 (fun x y => sameListed x y = true) xs ys ∧
+      (∀ a ∈ as, ∃ x ∈ xs, a.code = codeOf x) := by
+  induction xs generalizing as with
+  | nil =>
+      simp only [convertAll, Out.ok.injEq] at hc; subst hc
+      exact ⟨[], rfl, Zip2.nil, by simp⟩
+  | cons x rest ih =>
+      simp only [convertAll] at hc
+      cases hx : fromApi current x with
+      | ok a =>
+          simp only [hx] at hc
+          cases hrest : convertAll current rest with
+          | ok as' =>
+              simp only [hrest, Out.map_ok, Out.ok.injEq] at hc; subst hc
+              have hma : modelledCode a.code = true := hm a (by simp)
+              obtain ⟨hwf, hfc, hrt⟩ := from_api_rt x a (hr x (by simp)) hx hma
+              obtain ⟨y, hy, _⟩ := rtreal_of_rt a hwf hrt
+              obtain ⟨ys, hl, hf, hcodes⟩ := ih as' (fun z hz => hr z (List.mem_cons_of_mem _ hz)) hrest
+                (fun b hb => hm b (List.mem_cons_of_mem _ hb))
+              refine ⟨y :: ys, by simp [listAttrs, hy, hl], ?_, ?_⟩
+              · exact Zip2.cons (listed_same x a y (hr x (by simp)) hx hy) hf
+              · intro b hb
+                rcases List.mem_cons.mp hb with rfl | hb
+                · exact ⟨x, by simp, from_api_codeOf x b (fromApi_ok x b hx).2.1⟩
+                · obtain ⟨z, hz, hzc⟩ := hcodes b hb
+                  exact ⟨z, List.mem_cons_of_mem _ hz, hzc⟩
+          | err => simp [hrest, Out.map] at hc
+          | panic => simp [hrest, Out.map] at hc
+      | err => simp [hx] at hc
+      | panic => simp [hx] at hc
+
+theorem forall2_left {α β} {R : α → β → Prop} {l₁ : List α} {l₂ : List β} (h : Zip2 R l₁ l₂) :
+    (∀ x ∈ l₁, ∃ y ∈ l₂, R x y) ∧ (∀ y ∈ l₂, ∃ x ∈ l₁, R x y) := by
+  induction h with
+  | nil => simp
+  | cons hxy _ ih =>
+      refine ⟨?_, ?_⟩
+      · intro x hx
+        rcases List.mem_cons.mp hx with rfl | hx
+        · exact ⟨_, by simp, hxy⟩
+        · obtain ⟨y, hy, hr⟩ := ih.1 x hx
+          exact ⟨y, List.mem_cons_of_mem _ hy, hr⟩
+      · intro y hy
+        rcases List.mem_cons.mp hy with rfl | hy
+        · exact ⟨_, by simp, hxy⟩
+        · obtain ⟨x, hx, hr⟩ := ih.2 y hy
+          exact ⟨x, List.mem_cons_of_mem _ hx, hr⟩
+
+theorem listAttrs_append (as bs : List Attribute) (ys zs : List ApiAttr)
+    (h1 : listAttrs current as = .ok ys) (h2 : listAttrs current bs = .ok zs) :
+    listAttrs current (as ++ bs) = .ok (ys ++ zs) := by
+  induction as generalizing ys with
+  | nil => simp only [listAttrs, Out.ok.injEq] at h1; subst h1; simpa using h2
+  | cons a rest ih =>
+      simp only [listAttrs] at h1
+      cases ha : toApi current a with
+      | ok y =>
+          simp only [ha] at h1
+          cases hr : listAttrs current rest with
+          | ok ys' =>
+              simp only [hr, Out.map_ok, Out.ok.injEq] at h1; subst h1
+              simp [listAttrs, ha, ih ys' hr]
+          | err => simp [hr, Out.map] at h1
+          | panic => simp [hr, Out.map] at h1
+      | err => simp [ha] at h1
+      | panic => simp [ha] at h1
+
+theorem keepAttrs_no_panic (as : List Attribute) : keepAttrs as ≠ .panic := by
+  induction as with
+  | nil => simp [keepAttrs]
+  | cons a rest ih =>
+      simp only [keepAttrs]
+      split
+      · cases a.binary with
+        | none => simp
+        | some b =>
+            simp only
+            split
+            · split
+              · exact ih
+              · simp
+            · simp
+      · split
+        · exact ih
+        · exact map_no_panic _ _ ih
+
+theorem convertAll_no_panic (xs : List ApiAttr) : convertAll current xs ≠ .panic := by
+  induction xs with
+  | nil => simp [convertAll]
+  | cons x rest ih =>
+      simp only [convertAll]
+      cases hx : fromApi current x with
+      | ok a => simp only; exact map_no_panic _ _ ih
+      | err => simp
+      | panic => exact absurd hx (fromApi_no_panic x)
+
+/-- when no consumed / dropped kind is sent, ListPath shows every attribute that was added, and beyond them
+    only the mandatory defaults -/
+theorem checkPath_ok (sent : List ApiAttr) (stored : List Attribute) (hr : ∀ x ∈ sent, x.inRange = true)
+    (hk : ∀ x ∈ sent, kept x) (hl : localPath current sent = .ok stored)
+    (hm : ∀ a ∈ stored, modelledCode a.code = true) :
+    ∃ ys, listAttrs current stored = .ok ys ∧ checkPath sent ys = .ok := by
+  unfold localPath at hl
+  cases hc : convertAll current sent with
+  | err => simp [hc] at hl
+  | panic => simp [hc] at hl
+  | ok as =>
+      simp only [hc] at hl
+      -- nothing is consumed or dropped
+      have hcodes0 : ∀ a ∈ as, ∃ x ∈ sent, a.code = codeOf x := by
+        clear hl hm
+        induction sent generalizing as with
+        | nil => simp only [convertAll, Out.ok.injEq] at hc; subst hc; simp
+        | cons x rest ih =>
+            simp only [convertAll] at hc
+            cases hx : fromApi current x with
+            | ok a =>
+                simp only [hx] at hc
+                cases hrest : convertAll current rest with
+                | ok as' =>
+                    simp only [hrest, Out.map_ok, Out.ok.injEq] at hc; subst hc
+                    intro b hb
+                    rcases List.mem_cons.mp hb with rfl | hb
+                    · exact ⟨x, by simp, from_api_codeOf x b (fromApi_ok x b hx).2.1⟩
+                    · obtain ⟨z, hz, hzc⟩ := ih (fun z hz => hr z (List.mem_cons_of_mem _ hz))
+                        (fun z hz => hk z (List.mem_cons_of_mem _ hz)) as' hrest b hb
+                      exact ⟨z, List.mem_cons_of_mem _ hz, hzc⟩
+                | err => simp [hrest, Out.map] at hc
+                | panic => simp [hrest, Out.map] at hc
+            | err => simp [hx] at hc
+            | panic => simp [hx] at hc
+      have hkeep : keepAttrs as = .ok as := by
+        apply keepAttrs_id
+        intro a ha
+        obtain ⟨x, hx, hcx⟩ := hcodes0 a ha
+        have := hk x hx
+        unfold kept at this
+        omega
+      simp only [hkeep, Out.ok.injEq] at hl
+      -- the stored vector is `as` followed by the defaults that were missing
+      have hsub : ∀ a ∈ as, a ∈ stored := by
+        intro a ha; subst hl
+        split <;> split <;> simp [ha]
+      have hmas : ∀ a ∈ as, modelledCode a.code = true := fun a ha => hm a (hsub a ha)
+      obtain ⟨ys, hlist, hf, _⟩ := convert_list sent as hr hc hmas
+      obtain ⟨hleft, hright⟩ := forall2_left hf
+      have ho : listAttrs current [originIgp] = .ok [.origin 0] := by
+        simp [listAttrs, toApi, originIgp, Attribute.value]
+      have hp : listAttrs current [emptyAsPath] = .ok [.asPath []] := by
+        simp [listAttrs, toApi, emptyAsPath, Attribute.binary, asPathToSegs]
+      -- the listed vector: ys followed by the listed defaults
+      have hdef : ∃ zs, listAttrs current stored = .ok (ys ++ zs) ∧ ∀ z ∈ zs, z = .origin 0 ∨ z = .asPath [] := by
+        subst hl
+        by_cases h1 : (as.any fun a => decide (a.code = 1)) = true
+        · rw [if_pos h1]
+          by_cases h2 : (as.any fun a => decide (a.code = 2)) = true
+          · rw [if_pos h2]
+            exact ⟨[], by simpa using hlist, by simp⟩
+          · rw [if_neg h2]
+            exact ⟨[.asPath []], listAttrs_append as _ ys _ hlist hp, by simp⟩
+        · rw [if_neg h1]
+          have hlo := listAttrs_append as _ ys _ hlist ho
+          by_cases h2 : ((as ++ [originIgp]).any fun a => decide (a.code = 2)) = true
+          · rw [if_pos h2]
+            exact ⟨[.origin 0], hlo, by simp⟩
+          · rw [if_neg h2]
+            have := listAttrs_append (as ++ [originIgp]) _ (ys ++ [.origin 0]) _ hlo hp
+            exact ⟨[.origin 0, .asPath []], by simpa using this, by simp⟩
+      obtain ⟨zs, hstored, hzs⟩ := hdef
+      refine ⟨ys ++ zs, hstored, ?_⟩
+      unfold checkPath
+      have hfind : sent.find? (fun x => !((ys ++ zs).any (sameListed x))) = none := by
+        rw [List.find?_eq_none]
+        intro x hx
+        obtain ⟨y, hy, hs⟩ := hleft x hx
+        simp only [Bool.not_eq_true, Bool.not_eq_false', List.any_eq_true]
+        exact ⟨y, List.mem_append_left _ hy, hs⟩
+      rw [hfind]
+      have hall : (ys ++ zs).all (fun y => sent.any (fun x => sameListed x y) || y = .origin 0 || y = .asPath []) = true := by
+        rw [List.all_eq_true]
+        intro y hy
+        rcases List.mem_append.mp hy with hy | hy
+        · obtain ⟨x, hx, hs⟩ := hright y hy
+          have : sent.any (fun x => sameListed x y) = true := List.any_eq_true.mpr ⟨x, hx, hs⟩
+          simp [this]
+        · rcases hzs y hy with rfl | rfl <;> simp
+      simp [hall]
+
 /-- inputs on which the property is claimed for the code as it is now.
     * `attrWire`: the flags byte is the RFC one for the code.  Any other flags byte (PARTIAL, EXTENDED
       LENGTH on a short value, unused low bits) is stored verbatim by the decoder but not carried by the
-      API — the open finding `roundtrip-flags-differ`, see `Props.flags_not_carried`.
-    * `nlriWire`: a labeled-unicast label stack does not wrap the one-octet bit arithmetic of labeled.rs
-      (`(encoded_len * 8) as u8`, 11 labels or more; S7, owned by C03/C04). -/
+      typed API messages — the open finding `roundtrip-flags-differ` /
+      `roundtrip-noncanonical-flags-rejected`, see `Props.flags_not_carried`.
+    * API cases: the scalar fields are within their protobuf widths.
+    * `grpc` (AddPath then ListPath): no attribute that `local_path` consumes or drops is sent
+      (NEXT_HOP / raw MP_REACH, ORIGINATOR_ID, CLUSTER_LIST, raw MP_UNREACH) — ListPath does not show
+      them: the open findings `listed-path-lacks-*`. -/
 def caseOk : Case → Prop
   | .attrWire code flags _ => ∀ f, canonicalFlags code = some f → flags = f
   | .attrApi x => x.inRange = true
-  | .nlriWire f bs =>
-      AllB bs ∧ ∀ l, decodeList f bs.length bs = .ok l → ∀ n ∈ l, noWrap n
+  | .nlriWire _ bs => AllB bs
   | .nlriApi x => x.inRange = true
+  | .grpc x attrs => x.inRange = true ∧ (∀ a ∈ attrs, a.inRange = true) ∧ ∀ a ∈ attrs, kept a
   | .explore _ => True
 
 /-- **master theorem**: the reference checker written from the property text accepts every run of the
@@ -2107,10 +3185,10 @@ theorem check_run_ok (c : Case) (h : caseOk c) : Spec.check c (run current c) = 
       | true =>
         simp only [Bool.not_true, Bool.false_eq_true, if_false]
         simp only [wireCaseOk, Bool.and_eq_true, decide_eq_true_eq, List.all_eq_true, Bool.or_eq_true] at hok
-        obtain ⟨⟨⟨⟨⟨⟨⟨hm, _⟩, _⟩, hc⟩, hf⟩, hb⟩, _⟩, _⟩ := hok
+        obtain ⟨⟨⟨⟨⟨⟨⟨hm, _⟩, _⟩, hc⟩, hf⟩, hb⟩, hlen⟩, _⟩ := hok
         cases hd : decodeAttr code flags bs with
         | stored a =>
-            obtain ⟨hwf, hcode, hflags, hs⟩ := decode_wf code flags bs a hc hf hb hd
+            obtain ⟨hwf, hcode, hflags, hs⟩ := decode_wf code flags bs a hc hf hb hlen hd
             have hfc : flagsCanon a := by
               intro f hf'; rw [hcode] at hf'; rw [hflags]; exact h f hf'
             have hrt := roundtrip_attr a hwf (by rw [hcode]; exact hm) (by rw [hcode]; omega) hfc
@@ -2124,13 +3202,13 @@ theorem check_run_ok (c : Case) (h : caseOk c) : Spec.check c (run current c) = 
           simp only
           split
           · rename_i hm
-            obtain ⟨hwf, hrt⟩ := from_api_rt x a h hf hm
-            exact checkAttr_ok "accepted" a hwf hrt
+            obtain ⟨hwf, hfc, hrt⟩ := from_api_rt x a h hf hm
+            simp only [Spec.check, checkAttr_ok "accepted" a hwf hrt, seq]
+            exact checkListed_ok x a h hf hm
           · rfl
       | err => rfl
       | panic => exact absurd hf (fromApi_no_panic x)
   | nlriWire f bs =>
-      obtain ⟨hb, hw⟩ := h
       simp only [run]
       split
       · rfl
@@ -2139,15 +3217,49 @@ theorem check_run_ok (c : Case) (h : caseOk c) : Spec.check c (run current c) = 
             simp only
             split
             · rfl
-            · exact checkAll_ok "decoded" l (decodeList_wf f _ bs l hb hd (hw l hd))
+            · exact checkAll_ok "decoded" l (decodeList_wf f _ bs l h hd)
         | err => rfl
         | panic => exact absurd hd (decodeList_no_panic _ _ _)
   | nlriApi x =>
       simp only [run]
       cases hf : netFromApi current x with
       | ok n =>
-          have hwf := nlri_from_api_wf x n h hf
+          obtain ⟨hst, h0⟩ := netFromApi_ok x n hf
+          have hwf := nlri_from_api_wf x n h hst h0
           simp only [Spec.check, List.map_cons, List.map_nil, checkAll, checkNlri_ok "accepted" n hwf, seq]
+          simp only [nlriObs, nlri_listed_same x n h hst h0, if_true]
+      | err => rfl
+      | panic => exact absurd hf (netFromApi_no_panic x)
+  | grpc x attrs =>
+      obtain ⟨hx, hr, hk⟩ := h
+      simp only [run]
+      cases hf : netFromApi current x with
+      | ok n =>
+          obtain ⟨hst, h0⟩ := netFromApi_ok x n hf
+          simp only
+          cases hl : localPath current attrs with
+          | ok stored =>
+              simp only
+              split
+              · rename_i hm
+                simp only [List.all_eq_true] at hm
+                obtain ⟨ys, hys, hcp⟩ := checkPath_ok attrs stored hr hk hl hm
+                simp only [hys, Spec.check, nlri_listed_same x n hx hst h0, if_true, hcp]
+              · rfl
+          | err => rfl
+          | panic =>
+              exfalso
+              unfold localPath at hl
+              cases hc : convertAll current attrs with
+              | ok as =>
+                  simp only [hc] at hl
+                  cases hkp : keepAttrs as with
+                  | ok k => simp [hkp] at hl
+                  | err => simp [hkp] at hl
+                  | panic =>
+                      exact absurd hkp (keepAttrs_no_panic as)
+              | err => simp [hc] at hl
+              | panic => exact absurd hc (convertAll_no_panic attrs)
       | err => rfl
       | panic => exact absurd hf (netFromApi_no_panic x)
   | explore k => rfl
